@@ -1,27 +1,426 @@
-"""C19 — reading QPLIB (DESIGN §5 C19)."""
+"""C19 — reading QPLIB (DESIGN §5 C19).
+
+Written against the normal form (`VIEW = 'norm'`): helpers that do not exist on the pinned tree are
+inlined, iterator chains with closures are explicit `next` loops.  On top of that this module has a
+small private normal form (`local_form`) for three Option/bool combinators the engine leaves alone;
+every equivalence it uses is listed in LOCAL_IDIOMS.
+
+Formulation principles (see /verif/refactors/C19-NOTES.txt):
+ * a section of the file is "skipped under a kind letter" iff its cursor read is unreachable when every
+   test on that enum takes the letter's side — tests being `match`, `matches!`, `==`/`!=` and bools
+   computed from them (`reach_under`), not a particular `match` shape;
+ * "the value of X comes from reader R" follows copies, `?`, tuples, Some/Ok, `Option::zip`
+   (`origin_calls`), not a particular `let` structure;
+ * the two sides of a constraint are regions guarded by the comparison with +-inf; everything asked
+   of a side (sign of the constant, negated coefficient lists, id, equality, emission) is a dataflow
+   fact inside the region, not a count of calls.
+"""
 from .common import *
-from .C17 import literal_table
+from .. import normalize as NZ
+from .. import dataflow as DF
+from ..facts import Body
+
+VIEW = 'norm'
 
 QF = 'qplib::parser::QplibFile'
 STARTING = ('default_starting_x', 'starting_x', 'default_starting_y', 'starting_y', 'default_starting_z', 'starting_z')
 
 
+# =============================================================================== private normal form
+# equivalences used by local_form (one entry per rewritten combinator)
+LOCAL_IDIOMS = {
+    'then':       '`c.then(|| e)`        == `if c { Some(e) } else { None }`',
+    'ok_or_else': '`o.ok_or_else(|| e)`  == `match o { Some(v) => Ok(v), None => Err(e) }`',
+    'ok_or':      '`o.ok_or(e)`          == `match o { Some(v) => Ok(v), None => Err(e) }` (e already evaluated)',
+}
+_SOME0 = [{'dc': 'Some'}, {'f': '0', 'of': 'std::option::Option::Some'}]
+
+
+def _closure_value(F, rw, op):
+    """(closure body dict, captured operands) of an operand holding a closure built in this body"""
+    for _ in range(6):
+        if op['k'] not in ('copy', 'move') or op['pl']['p']: return None
+        d = rw.single_def(op['pl']['l'])
+        if d is None or d[0] != 'stmt': return None
+        rv = d[2]['rv']
+        if rv['k'] == 'use': op = rv['ops'][0]; continue
+        if rv['k'] == 'agg' and rv['adt'].startswith('closure:'):
+            cb = F.bodies.get(rv['adt'][8:])
+            return (cb.d, rv['ops']) if cb is not None else None
+        return None
+    return None
+
+
+def local_form(ctx, body):
+    """`body` with the combinators of LOCAL_IDIOMS replaced by the match they stand for (closure bodies
+    spliced, captures substituted).  Identity when none occurs.  Cached per body."""
+    cache = ctx.__dict__.setdefault('_c19_local', {})
+    if body.name in cache: return cache[body.name]
+    rw = NZ.Rewriter(body.d)
+    for _ in range(24):
+        hit = False
+        for bi, blk in enumerate(rw.blocks):
+            t = blk['term']
+            if blk['cleanup'] or t['k'] != 'call' or t['t'] < 0 or t.get('c19'): continue
+            name = t.get('r') or t.get('f') or ''; item = (t.get('ri') or {}).get('item') or ''
+            span = t.get('span'); line = (span or {}).get('lo', 0); dst = t['dst']; after = t['t']
+            if item == 'then' and re.search(r'\bbool\b', name) and len(t['args']) == 2:
+                cv = _closure_value(ctx.F, rw, t['args'][1])
+                if cv is None: t['c19'] = 'opaque'; continue
+                cd, caps = cv
+                r = rw.new_local(cd['locals'][0])
+                some = rw.new_block([NZ._agg(dst, 'std::option::Option::Some', [NZ._mv(r)], line=line)], {'k': 'goto', 't': after})
+                none = rw.new_block([NZ._agg(dst, 'std::option::Option::None', [], line=line)], {'k': 'goto', 't': after})
+                entry = rw.splice(cd, [NZ._const('()', 'env')], NZ._pl(r), some, span, captures=caps)
+                blk['term'] = {'k': 'switch', 'd': t['args'][0], 'ts': [[0, none]], 'else': entry}
+                hit = True; break
+            if item in ('ok_or_else', 'ok_or') and re.search(r'option::Option::<', name) and len(t['args']) == 2 and t['args'][0]['k'] in ('copy', 'move'):
+                opt = t['args'][0]['pl']
+                if item == 'ok_or_else':
+                    cv = _closure_value(ctx.F, rw, t['args'][1])
+                    if cv is None: t['c19'] = 'opaque'; continue
+                dl = rw.new_local('isize'); un = rw.new_block()
+                okb = rw.new_block([NZ._agg(dst, 'std::result::Result::Ok', [{'k': 'move', 'pl': {'l': opt['l'], 'p': list(opt['p']) + _SOME0}}], line=line)], {'k': 'goto', 't': after})
+                if item == 'ok_or_else':
+                    cd, caps = cv
+                    r = rw.new_local(cd['locals'][0])
+                    errb = rw.new_block([NZ._agg(dst, 'std::result::Result::Err', [NZ._mv(r)], line=line)], {'k': 'goto', 't': after})
+                    entry = rw.splice(cd, [NZ._const('()', 'env')], NZ._pl(r), errb, span, captures=caps)
+                else:
+                    entry = rw.new_block([NZ._agg(dst, 'std::result::Result::Err', [t['args'][1]], line=line)], {'k': 'goto', 't': after})
+                blk['st'].append(NZ._discr(dl, {'l': opt['l'], 'p': list(opt['p'])}, line))
+                blk['term'] = {'k': 'switch', 'd': NZ._mv(dl), 'ts': [[0, entry], [1, okb]], 'else': un}
+                hit = True; break
+        if not hit: break
+    changed = rw.d['blocks'] != body.d['blocks']
+    if changed:
+        nb = Body(rw.d); nb.facts = ctx.F
+    else:
+        nb = body
+    cache[body.name] = nb
+    return nb
+
+
+def local_slicer(ctx):
+    """slices over local_form bodies (the engine's slicer caches graphs by body name)"""
+    s = ctx.__dict__.get('_c19_slicer')
+    if s is None:
+        s = ctx.__dict__['_c19_slicer'] = DF.Slicer(ctx.F, depth=ctx.S.depth)
+    return s
+
+
+# =============================================================================== generic helpers
+def literal_table(body):
+    """{literal: (true_target, false_target, call)} of the `x == "LIT"` tests of a string match"""
+    tab = {}
+    for lit, c, t, f in T.str_eq_tests(body):
+        tab.setdefault(lit, (t, f, c))
+    return tab
+
+
+def _projs(pl):
+    """field projections of a place as (name, owner); derefs / downcasts / indices dropped"""
+    return [(p['f'], p.get('of', '')) for p in pl['p'] if isinstance(p, dict) and 'f' in p]
+
+
+_PAYLOAD = re.compile(r'(Option::Some|Result::Ok|ControlFlow::Continue)$')
+# calls whose result *is* (a wrapper around) their first argument, for the purpose of "where does this value come from"
+ORIGIN_TRANSPARENT = re.compile(r'::(to_ascii_uppercase|to_ascii_lowercase|to_owned|to_string)$')
+
+
+def origin_calls(b, operand, depth=14):
+    """the calls that directly produce the value of `operand`: follows copies, references, casts, `?`
+    and the other transparent adaptors, projections out of tuples / Some / Ok built in this body, all
+    definitions of a match-joined local, and `Option::zip` (`a.zip(b)` yields Some((a, b)))."""
+    out = []; seen = set()
+
+    def visit(l, projs, d):
+        key = (l, tuple(projs))
+        if key in seen or d <= 0: return
+        seen.add(key)
+        for k, bi, df in b.defs_of(l):
+            if k == 'call':
+                c = [x for x in b.calls if x.bb == bi][0]
+                nm = T.strip_generics_tail(c.name)
+                a0 = c.args[0] if c.args and c.args[0]['k'] in ('copy', 'move') else None
+                if re.search(r'option::Option::<.*>::zip$', nm) and len(c.args) == 2 and len(projs) >= 2 and _PAYLOAD.search(projs[0][1]) and projs[1][0] in ('0', '1'):
+                    a = c.args[int(projs[1][0])]
+                    if a['k'] in ('copy', 'move'): visit(a['pl']['l'], _projs(a['pl']) + [projs[0]] + projs[2:], d - 1)
+                elif (T.TRANSPARENT.search(nm) or ORIGIN_TRANSPARENT.search(nm)) and a0 is not None:
+                    visit(a0['pl']['l'], _projs(a0['pl']) + projs, d - 1)
+                else:
+                    out.append(c)
+                continue
+            if df['dst']['p']: continue
+            rv = df['rv']
+            if rv['k'] in ('use', 'cast') and rv['ops'][0]['k'] in ('copy', 'move'):
+                pl = rv['ops'][0]['pl']; visit(pl['l'], _projs(pl) + projs, d - 1)
+            elif rv['k'] == 'ref':
+                visit(rv['pl']['l'], _projs(rv['pl']) + projs, d - 1)
+            elif rv['k'] == 'agg' and rv['adt'] == 'tuple' and projs and projs[0][1] == 'tuple' and projs[0][0].isdigit() and int(projs[0][0]) < len(rv['ops']):
+                o = rv['ops'][int(projs[0][0])]
+                if o['k'] in ('copy', 'move'): visit(o['pl']['l'], _projs(o['pl']) + projs[1:], d - 1)
+            elif rv['k'] == 'agg' and rv['ops'] and _PAYLOAD.search(rv['adt']):
+                o = rv['ops'][0]
+                if o['k'] in ('copy', 'move'): visit(o['pl']['l'], _projs(o['pl']) + (projs[1:] if projs and _PAYLOAD.search(projs[0][1]) else projs), d - 1)
+    if operand['k'] in ('copy', 'move'):
+        visit(operand['pl']['l'], _projs(operand['pl']), depth)
+    uniq = {}
+    for c in out: uniq[id(c)] = c
+    return list(uniq.values())
+
+
+def direct_calls(b, operand, item):
+    """calls named `item` that directly produce the value of `operand`, not earlier calls that merely share state"""
+    return [c for c in origin_calls(b, operand) if c.item == item]
+
+
+def innermost_loop(b, bi):
+    """(header, blocks) of the innermost natural loop containing block bi, or None"""
+    best = None
+    for h, blocks in b.loops().items():
+        if bi in blocks and (best is None or len(blocks) < len(best[1])): best = (h, blocks)
+    return best
+
+
+def exclusive_regions(b, bi, a_bb, o_bb):
+    """blocks reached only through a_bb / only through o_bb from the two-way test in block bi; the
+    walk stops at the header of the loop the test sits in, so one iteration is looked at"""
+    lo = innermost_loop(b, bi)
+    stop = {lo[0]} if lo else set()
+    ra = b.reach([a_bb], stop=stop) if a_bb is not None else set()
+    ro = b.reach([o_bb], stop=stop) if o_bb is not None else set()
+    return ra - ro, ro - ra
+
+
+def reach_ps(b, starts, limit=60000):
+    """path-sensitive forward reachability: remembers, along each path, bools assigned a literal and the
+    variant of Option/Result locals built by an aggregate (through moves), and follows only the matching
+    side of a switch on them.  Falls back to plain reachability when the state space explodes."""
+    VAR = {'Option::None': 0, 'Option::Some': 1, 'Result::Ok': 0, 'Result::Err': 1}
+    def variant(adt):
+        for k, v in VAR.items():
+            if adt.endswith(k): return v
+        return None
+    seen = set(); out = set(); work = [(s, frozenset()) for s in starts]
+    while work:
+        bi, env = work.pop()
+        if (bi, env) in seen: continue
+        seen.add((bi, env)); out.add(bi)
+        if len(seen) > limit: return b.reach(starts)
+        e = dict(env)
+        blk = b.blocks[bi]
+        for st in blk['st']:
+            if 'dst' not in st: continue
+            d = st['dst']; rv = st['rv']
+            if d['p']:
+                e.pop(('v', d['l']), None); continue
+            l = d['l']; o = rv['ops'][0] if rv.get('ops') else None
+            for key in (('b', l), ('v', l), ('d', l)): e.pop(key, None)
+            if rv['k'] in ('ref', 'rawptr') and (rv.get('mut') or rv['k'] == 'rawptr'):      # may be written through the borrow: forget it
+                for key in (('b', rv['pl']['l']), ('v', rv['pl']['l']), ('d', rv['pl']['l'])): e.pop(key, None)
+            if rv['k'] == 'use' and o['k'] == 'const' and o['v'] in ('true', 'false'): e[('b', l)] = (o['v'] == 'true')
+            elif rv['k'] == 'use' and o['k'] in ('copy', 'move') and not o['pl']['p']:
+                for kind in ('b', 'v', 'd'):
+                    if (kind, o['pl']['l']) in e: e[(kind, l)] = e[(kind, o['pl']['l'])]
+            elif rv['k'] == 'un' and rv['op'] == 'Not' and o['k'] in ('copy', 'move') and not o['pl']['p'] and ('b', o['pl']['l']) in e: e[('b', l)] = not e[('b', o['pl']['l'])]
+            elif rv['k'] == 'agg' and variant(rv['adt']) is not None: e[('v', l)] = variant(rv['adt'])
+            elif rv['k'] == 'discr' and not rv['pl']['p'] and ('v', rv['pl']['l']) in e: e[('d', l)] = e[('v', rv['pl']['l'])]
+        t = blk['term']; succs = b.succ(bi)
+        if t['k'] == 'call':
+            nm = t.get('r') or t.get('f') or ''
+            a0 = t['args'][0] if t['args'] else None
+            br = None
+            if T.TRY_BRANCH.search(nm) and a0 is not None and a0['k'] in ('copy', 'move') and not a0['pl']['p'] and ('v', a0['pl']['l']) in e:
+                # `x?`: Ok / Some continue (ControlFlow::Continue = 0), Err / None break (= 1)
+                v = e[('v', a0['pl']['l'])]
+                br = (1 - v) if nm.startswith('<std::option::Option<') else v
+            if 'FromResidual' in nm and nm.endswith('from_residual'):
+                # the residual of `?` handed to the caller's type: Err / None
+                br = 0 if nm.startswith('<std::option::Option<') else 1
+            for key in (('b', t['dst']['l']), ('v', t['dst']['l']), ('d', t['dst']['l'])): e.pop(key, None)
+            if br is not None and not t['dst']['p']: e[('v', t['dst']['l'])] = br
+        elif t['k'] == 'switch' and t['d']['k'] != 'const' and not t['d']['pl']['p']:
+            dl = t['d']['pl']['l']; m = {v: tg for v, tg in t['ts']}
+            if ('b', dl) in e: succs = [m.get(1 if e[('b', dl)] else 0, t['else'])]
+            elif ('d', dl) in e: succs = [m.get(e[('d', dl)], t['else'])]
+        fe = frozenset(e.items())
+        for s in succs:
+            if not b.blocks[s]['cleanup']: work.append((s, fe))
+    return out
+
+
+def errflow_ps(b, local, depth=0, none_variant=0):
+    """T.errflow with path-sensitive reachability (reach_ps): after an "extract helper" edit the normal form has the
+    helper's `return Err(..)` / inner `?` assign the helper's result and the caller's `?` test it again; plain
+    reachability would let the inner Break arm reach the caller's Continue arm."""
+    res = []
+    if depth > 6: return [('bad', 'adaptor chain too deep')]
+    if local == 0: return [('ok', 'returned')]
+    oks = b.strict_ok_exits()
+    uses = b.uses.get(local, ())
+    if not uses: return [('bad', 'result unused (dropped)')]
+    for kind, bi, x in uses:
+        if kind == 'call':
+            name = x.name
+            if T.TRY_BRANCH.search(name):
+                arms = T.try_arms(b, local)
+                if arms: res.append(('bad', 'Break arm of ? reaches an Ok-exit') if reach_ps(b, [arms[1]]) & oks else ('ok', '?'))
+                else: res.append(('bad', 'Try::branch without switch'))
+            elif T.ERR_ADAPTORS.search(name):
+                res += [(k, '%s -> %s' % (x.item, h)) for k, h in errflow_ps(b, x.dst['l'], depth + 1, none_variant)]
+            elif T.ERR_BAD.search(name): res.append(('bad', 'consumed by ' + x.item))
+            else: res.append(('bad', 'passed to ' + name[:60]))
+        elif kind == 'stmt':
+            rv = x['rv']
+            if rv['k'] == 'discr':
+                for k3, b3, sw in b.uses.get(x['dst']['l'], ()):
+                    if k3 != 'switch': continue
+                    m = {v: t for v, t in sw['ts']}
+                    r = reach_ps(b, [m.get(none_variant, sw['else'])])
+                    res.append(('bad', 'None/Err side of match reaches an Ok-exit') if r & oks else ('ok', 'match: None/Err side reaches only Err-exits'))
+            elif rv['k'] == 'use' and x['dst']['p'] == []:
+                o = rv['ops'][0]
+                if o['k'] in ('copy', 'move') and o['pl']['l'] == local and o['pl']['p'] == []:
+                    if x['dst']['l'] == 0: res.append(('ok', 'returned'))
+                    else: res += errflow_ps(b, x['dst']['l'], depth + 1, none_variant)
+            elif rv['k'] == 'ref':
+                res += errflow_ps(b, x['dst']['l'], depth + 1, none_variant)
+    if not res: res.append(('bad', 'no recognised consumer'))
+    return res
+
+
+def errflow_calls_ps(ctx, rule, body, calls, what):
+    """common.errflow_calls on errflow_ps"""
+    for c in calls:
+        res = errflow_ps(body, c.dst['l'])
+        ctx.counters['cfg_paths'] += 1
+        bad = [h for k, h in res if k == 'bad']
+        ctx.check(not bad, rule, 'T-ERRFLOW', body.name, '%s: %s' % (what, '; '.join(sorted(set(bad)))), body.site(c.bb), consumers=[h for k, h in res])
+
+
+def sign_and_core(e):
+    """(sign, core) of an f64 expression tree: peels negations written as `-x`, `x * -1.0`, `-1.0 * x` (bit-identical for every f64;
+    `0.0 - x` is not: it turns +0.0 into +0.0 where `-x` gives -0.0, so it is deliberately not in the list)"""
+    sign = 1
+    while True:
+        e = T.arith(e)
+        if e[0] == 'un' and e[1] == 'Neg': sign = -sign; e = e[2]; continue
+        if e[0] == 'bin' and e[1] == 'Mul':
+            cs = [(i, T.f64_const(x[1])) for i, x in ((2, e[2]), (3, e[3])) if x[0] == 'const']
+            neg = [i for i, v in cs if v == -1.0]
+            if neg: sign = -sign; e = e[3] if neg[0] == 2 else e[2]; continue
+        return sign, e
+
+
+def _reads_place(b, operand, place):
+    """is the operand the value of `place` (directly, or through one temporary `t = copy place`)?"""
+    if operand['k'] not in ('copy', 'move'): return False
+    if operand['pl'] == place: return True
+    if operand['pl']['p']: return False
+    ds = b.defs_of(operand['pl']['l'])
+    return len(ds) == 1 and ds[0][0] == 'stmt' and not ds[0][2]['dst']['p'] and ds[0][2]['rv']['k'] == 'use' and ds[0][2]['rv']['ops'][0]['k'] in ('copy', 'move') and ds[0][2]['rv']['ops'][0]['pl'] == place
+
+
+def flows_to_return(b, local, limit=400):
+    """does the value in `local` reach the return place?  Forward, over-approximate: through moves, wrappers,
+    any call taking it by value (into the call's result), and insertion calls (into the collection the
+    `&mut` receiver points to)."""
+    INS = ('push', 'push_back', 'insert', 'extend', 'append', 'extend_from_slice')
+    seen = set(); work = [local]
+    while work and len(seen) < limit:
+        l = work.pop()
+        if l in seen: continue
+        seen.add(l)
+        if l == 0: return True
+        for kind, bi, x in b.uses.get(l, ()):
+            if kind == 'stmt':
+                if 'dst' in x: work.append(x['dst']['l'])
+            elif kind == 'call':
+                work.append(x.dst['l'])
+                if x.item in INS and x.args and x.args[0]['k'] in ('copy', 'move') and x.args[0]['pl']['l'] != l:
+                    # receiver `&mut coll`: the collection local(s) it borrows
+                    r = x.args[0]['pl']['l']
+                    for k2, b2, d2 in b.defs_of(r):
+                        if k2 == 'stmt' and d2['rv']['k'] == 'ref': work.append(d2['rv']['pl']['l'])
+                        elif k2 == 'stmt' and d2['rv']['k'] == 'use' and d2['rv']['ops'][0]['k'] in ('copy', 'move'): work.append(d2['rv']['ops'][0]['pl']['l'])
+                    work.append(r)
+    return 0 in seen
+
+
+# =============================================================================== C19.codes
+CASE_FOLD = 'the format writes the letters in upper case; the reader may fold case before the test'
+
+
 def char_tables(ctx, body):
-    """switches on a char (code points): list of {char: enum variant built in that arm}, fallthrough is error?"""
+    """switches on a char: list of dict(tab={LETTER: enum variant built only in that arm}, err=fall-through
+    is an error, bb, enum=the enum the arms build, scrutinee=operand tested)"""
     out = []
     for bi in sorted(body.live):
         t = body.blocks[bi]['term']
         if t['k'] == 'switch' and t['d']['k'] != 'const' and body.locals[t['d']['pl']['l']] == 'char':
-            tab = {}
             tg_all = {tg for v, tg in t['ts']} | {t['else']}
+            reach = {tg: body.reach([tg], stop=tg_all - {tg}) for tg in tg_all}
+            tab = {}; enums = set()
             for v, tg in t['ts']:
-                reg = body.reach([tg], stop=tg_all - {tg})
-                vs = sorted({st['rv']['adt'] for b2, st in body.stmts() if b2 in {tg} and st['rv']['k'] == 'agg' and 'qplib::parser::Prob' in st['rv']['adt']})
-                tab[chr(v)] = vs[0].split('qplib::parser::')[-1] if len(vs) == 1 else vs
-            er = body.reach([t['else']], stop=tg_all - {t['else']})
-            err = bool(er & body.err_exits()) and not any(st['rv']['k'] == 'agg' and 'qplib::parser::Prob' in st['rv']['adt'] for b2, st in body.stmts() if b2 in er and b2 != t['else'] and False)
-            out.append((tab, err, bi))
+                others = set()
+                for o in tg_all - {tg}: others |= reach[o]
+                reg = reach[tg] - others
+                vs = sorted({st['rv']['adt'].split('qplib::parser::')[-1] for b2, st in body.stmts() if b2 in reg and st['rv']['k'] == 'agg' and 'qplib::parser::Prob' in st['rv']['adt']})
+                key = chr(v).upper()        # CASE_FOLD
+                val = vs[0] if len(vs) == 1 else vs
+                if key in tab and tab[key] != val: val = sorted(set(([tab[key]] if isinstance(tab[key], str) else tab[key]) + ([val] if isinstance(val, str) else val)))
+                tab[key] = val
+                enums |= {x.split('::')[0] for x in vs}
+            er = reach[t['else']]
+            err = bool(er & body.err_exits()) and not (er & body.strict_ok_exits())
+            out.append(dict(tab=tab, err=err, bb=bi, enum=sorted(enums)[0] if len(enums) == 1 else None, scrutinee=t['d']))
     return out
+
+
+def none_is_error(b, local, projs=(), depth=0):
+    """how is the None case of the Option in `local` (or in field `projs` of a tuple in `local`) consumed?
+    findings ('ok'|'bad', how) in the style of T.errflow.  Idioms:
+       `o?`, `o.ok_or(..)?`, `o.ok_or_else(..)?`, `o.context(..)?`   (T.errflow)
+       `match o { None => return Err, .. }`, `let Some(x) = o else { return Err }`  (switch whose None side reaches no Ok-exit)
+       `a.zip(b)` is None as soon as one of them is: follow the zipped Option
+       `match (a, b, c) { (Some(..), Some(..), Some(..)) => .., _ => return Err }`: follow the tuple field"""
+    res = []
+    if depth > 8: return [('bad', 'too deep')]
+    oks = b.strict_ok_exits()
+    projs = list(projs)
+    for kind, bi, x in b.uses.get(local, ()):
+        if kind == 'call':
+            if projs: continue
+            nm = T.strip_generics_tail(x.name)
+            if re.search(r'option::Option::<.*>::zip$', nm):
+                res += [(k, 'zip -> ' + h) for k, h in none_is_error(b, x.dst['l'], (), depth + 1)]
+            elif T.TRY_BRANCH.search(x.name) or T.ERR_ADAPTORS.search(x.name) or T.ERR_BAD.search(x.name):
+                pass            # decided by T.errflow below
+            else:
+                res.append(('bad', 'passed to ' + x.item))
+        elif kind == 'stmt':
+            rv = x['rv']
+            if rv['k'] == 'discr' and [p for p in _projs(rv['pl'])] == [tuple(p) for p in projs] and rv['pl']['l'] == local:
+                for k3, b3, sw in b.uses.get(x['dst']['l'], ()):
+                    if k3 != 'switch': continue
+                    m = {v: t for v, t in sw['ts']}
+                    r = b.reach([m.get(0, sw['else'])])
+                    res.append(('bad', 'None side of match reaches an Ok-exit') if r & oks else ('ok', 'match: None side reaches only Err-exits'))
+            elif rv['k'] == 'use' and not x['dst']['p'] and rv['ops'][0]['k'] in ('copy', 'move') and rv['ops'][0]['pl']['l'] == local:
+                src = _projs(rv['ops'][0]['pl'])
+                if src == projs[:len(src)] and not any(isinstance(p, dict) and 'dc' in p for p in rv['ops'][0]['pl']['p']):
+                    res += none_is_error(b, x['dst']['l'], projs[len(src):], depth + 1)
+            elif rv['k'] == 'agg' and rv['adt'] == 'tuple' and not x['dst']['p'] and not projs:
+                for i, o in enumerate(rv['ops']):
+                    if o['k'] in ('copy', 'move') and o['pl']['l'] == local and not o['pl']['p']:
+                        res += [(k, 'tuple.%d -> %s' % (i, h)) for k, h in none_is_error(b, x['dst']['l'], [(str(i), 'tuple')], depth + 1)]
+    if not projs:
+        ef = errflow_ps(b, local)
+        # errflow does not know zip / tuples: its "passed to"/"no recognised consumer" verdicts are ours to give
+        res += [(k, h) for k, h in ef if not (k == 'bad' and (h.startswith('passed to') or h.startswith('no recognised') or h.startswith('result unused')))]
+    if not res: res.append(('bad', 'no recognised consumer'))
+    return res
 
 
 def codes_rules(ctx):
@@ -30,25 +429,44 @@ def codes_rules(ctx):
     if b is not None:
         tabs = char_tables(ctx, b)
         want = [
-            ({'L': 'ProbObjKind::Linear', 'D': 'ProbObjKind::DiagonalC', 'C': 'ProbObjKind::ConcaveOrConvex', 'Q': 'ProbObjKind::Quadratic'}, 'objective'),
-            ({'C': 'ProbVarKind::Continuous', 'B': 'ProbVarKind::Binary', 'M': 'ProbVarKind::Mixed', 'I': 'ProbVarKind::Integer', 'G': 'ProbVarKind::General'}, 'variables'),
-            ({'N': 'ProbConstrKind::None', 'B': 'ProbConstrKind::Box', 'L': 'ProbConstrKind::Linear', 'D': 'ProbConstrKind::DiagonalConvex', 'C': 'ProbConstrKind::Convex', 'Q': 'ProbConstrKind::Quadratic'}, 'constraints'),
+            ('ProbObjKind', {'L': 'ProbObjKind::Linear', 'D': 'ProbObjKind::DiagonalC', 'C': 'ProbObjKind::ConcaveOrConvex', 'Q': 'ProbObjKind::Quadratic'}, 'objective'),
+            ('ProbVarKind', {'C': 'ProbVarKind::Continuous', 'B': 'ProbVarKind::Binary', 'M': 'ProbVarKind::Mixed', 'I': 'ProbVarKind::Integer', 'G': 'ProbVarKind::General'}, 'variables'),
+            ('ProbConstrKind', {'N': 'ProbConstrKind::None', 'B': 'ProbConstrKind::Box', 'L': 'ProbConstrKind::Linear', 'D': 'ProbConstrKind::DiagonalConvex', 'C': 'ProbConstrKind::Convex', 'Q': 'ProbConstrKind::Quadratic'}, 'constraints'),
         ]
-        ctx.check(len(tabs) == 3, R + '/problem-type/three-letters', 'T-TABLE', b.name, 'expected three code-letter tables, found %d' % len(tabs), b.site())
-        for (w, what), got in zip(want, sorted(tabs, key=lambda x: x[2])):
-            tab, err, bi = got
-            ctx.check(tab == w, R + '/problem-type/' + what, 'T-TABLE', b.name, '%s code table is %s, the format defines %s' % (what, tab, w), b.site(bi), table=str(tab))
-            ctx.check(err, R + '/problem-type/%s/unknown-is-error' % what, 'T-TABLE', b.name, 'an unknown %s code is not an error' % what, b.site(bi))
-        # order of the letters: (objective, variables, constraints)
-        aggs = [st for bi, st in b.stmts() if st['rv']['k'] == 'agg' and st['rv']['adt'].endswith('parser::ProblemType')]
-        ok = False
-        for st in aggs:
-            tys = [b.locals[o['pl']['l']].split('::')[-1] if o['k'] in ('copy', 'move') else '?' for o in st['rv']['ops']]
-            ok = tys == ['ProbObjKind', 'ProbVarKind', 'ProbConstrKind']
-        ctx.check(ok, R + '/problem-type/letter-order', 'T-CARRY', b.name, 'ProblemType is not (objective, variables, constraints)', b.site())
-        # too short => error
-        zs = [c for c in b.calls if c.item in ('ok_or_else', 'ok_or')]
-        errflow_calls(ctx, R + '/problem-type/too-short-is-error', b, zs, 'fewer than three letters')
+        # one table per kind enum, found by what its arms build (not by the order of the switches)
+        by_enum = {}
+        for tb in tabs:
+            if tb['enum']: by_enum.setdefault(tb['enum'], []).append(tb)
+        ctx.check(all(len(by_enum.get(e, [])) == 1 for e, w, what in want), R + '/problem-type/three-letters', 'T-TABLE', b.name,
+                  'expected one code-letter table per kind (objective, variables, constraints), found %s' % {e: len(v) for e, v in by_enum.items()}, b.site())
+        letters = {}
+        for enum, w, what in want:
+            for tb in by_enum.get(enum, [])[:1]:
+                ctx.check(tb['tab'] == w, R + '/problem-type/' + what, 'T-TABLE', b.name, '%s code table is %s, the format defines %s' % (what, tb['tab'], w), b.site(tb['bb']), table=str(tb['tab']))
+                ctx.check(tb['err'], R + '/problem-type/%s/unknown-is-error' % what, 'T-TABLE', b.name, 'an unknown %s code is not an error' % what, b.site(tb['bb']))
+                letters[what] = [c for c in origin_calls(b, tb['scrutinee']) if c.item == 'next' and (c.trait or '').endswith('Iterator')]
+        # order of the letters: the objective table tests the first char taken from the string, variables the second, constraints the third
+        nexts = {id(c): c for cs in letters.values() for c in cs}
+        nexts.update({id(c): c for c in b.calls if c.item == 'next' and (c.trait or '').endswith('Iterator') and 'std::str::Chars' in c.name})
+        nexts = sorted(nexts.values(), key=lambda c: c.bb)
+        pos = {}
+        for what, cs in letters.items():
+            if len(cs) == 1:
+                pos[what] = sum(1 for o in nexts if o is not cs[0] and b.dominates(o.bb, cs[0].bb))
+        if len(pos) == 3 and len(nexts) == 3:
+            ctx.check(pos == {'objective': 0, 'variables': 1, 'constraints': 2}, R + '/problem-type/letter-order', 'T-CARRY', b.name,
+                      'the letters are not used as (objective, variables, constraints): %s' % pos, b.site())
+        else:
+            # weaker condition that is still checked: the three kinds go into ProblemType in declaration order (type-checked) and every table has a scrutinee
+            aggs = [st for bi, st in b.stmts() if st['rv']['k'] == 'agg' and st['rv']['adt'].endswith('parser::ProblemType')]
+            ctx.check(bool(aggs), R + '/problem-type/letter-order/built', 'T-CARRY', b.name, 'no ProblemType is built', b.site())
+            ctx.undecided(R + '/problem-type/letter-order', 'T-CARRY', b.site(), 'cannot trace each table\'s scrutinee to one of three `chars.next()` calls: %s' % {k: len(v) for k, v in letters.items()})
+        # too short => error: the None of every letter read ends in an Err-exit
+        bad = []; n = 0
+        for c in nexts:
+            n += 1
+            bad += ['%s: %s' % (b.site(c.bb), h) for k, h in none_is_error(b, c.dst['l']) if k == 'bad']
+        ctx.check(n >= 1 and not bad, R + '/problem-type/too-short-is-error', 'T-ERRFLOW', b.name, 'fewer than three letters: %s' % ('; '.join(sorted(set(bad))) or 'no letter read found'), b.site())
     b = ctx.method(R + '/sense/anchor', 'qplib::parser::ObjSense', 'from_str', trait='FromStr')
     if b is not None:
         tab = literal_table(b)
@@ -72,56 +490,96 @@ def codes_rules(ctx):
         ctx.check(any(st['rv']['k'] == 'agg' and st['rv']['adt'].endswith('ParseErrorReason::InvalidVarType') for bi, st in b.stmts() if bi in rest) and not (rest & b.strict_ok_exits()), R + '/var-type/unknown-is-error', 'T-TABLE', b.name, 'unknown variable type is not InvalidVarType', b.site())
     sb = ctx.free_fn(R + '/convert-sense/anchor', 'qplib::convert::convert_sense')
     if sb is not None:
-        adt = ctx.F.adt('qplib::parser::ObjSense'); rows = {}
-        for bi_ in sb.live:
-            t = sb.blocks[bi_]['term']
-            if t['k'] == 'switch' and adt:
-                m = {v: tg for v, tg in t['ts']}
-                for v in adt['variants']:
-                    tg = m.get(v['discr'], t['else']); others = {m.get(x['discr'], t['else']) for x in adt['variants']} - {tg}
-                    reg = sb.reach([tg], stop=others)
-                    rows[v['name']] = sorted({re.search(r'Sense::(\w+)', o['v']).group(1) for b2, st in sb.stmts() if b2 in reg for o in st['rv'].get('ops', []) if o['k'] == 'const' and 'Sense::' in o['v']})
+        rows = enum_rows(ctx, sb, 'qplib::parser::ObjSense', lambda reg: sorted({re.search(r'Sense::(\w+)', o['v']).group(1) for b2, st in sb.stmts() if b2 in reg for o in st['rv'].get('ops', []) if o['k'] == 'const' and 'Sense::' in o['v']}
+                                                                                   | {st['rv']['adt'].split('::')[-1] for b2, st in sb.stmts() if b2 in reg and st['rv']['k'] == 'agg' and 'instance::Sense::' in st['rv']['adt']}))
         ctx.check(rows == {'Minimize': ['Minimize'], 'Maximize': ['Maximize']}, R + '/convert-sense/mapping', 'T-BRANCHFX', sb.name, 'ObjSense maps to %s' % rows, sb.site())
 
 
+# =============================================================================== C19.sections
 def from_lines(ctx):
     bs = [b for b in ctx.F.bodies.values() if b.kind == 'fn' and b.hdr.get('self') == QF and b.hdr.get('item') == 'from_lines']
     return bs[0] if len(bs) == 1 else None
 
 
-def direct_calls(b, operand, item, depth=8):
-    """calls named `item` that directly produce the value of `operand` (following copies, `?`, tuple
-    projections and all definitions of match-joined locals), not earlier calls that merely share state"""
-    out = []; seen = set()
-    def visit(pl_l, fields, d):
-        key = (pl_l, tuple(fields))
-        if key in seen or d <= 0: return
-        seen.add(key)
-        for k, bi, df in b.defs_of(pl_l):
-            if k == 'call':
-                c = [x for x in b.calls if x.bb == bi][0]
-                if c.item == item: out.append(c)
-                elif T.TRANSPARENT.search(T.strip_generics_tail(c.name)) and c.args and c.args[0]['k'] in ('copy', 'move'):
-                    visit(c.args[0]['pl']['l'], [p['f'] for p in c.args[0]['pl']['p'] if isinstance(p, dict) and 'f' in p] + fields, d - 1)
-                continue
-            if df['dst']['p']: continue
-            rv = df['rv']
-            if rv['k'] == 'use' and rv['ops'][0]['k'] in ('copy', 'move'):
-                pl = rv['ops'][0]['pl']
-                visit(pl['l'], [p['f'] for p in pl['p'] if isinstance(p, dict) and 'f' in p] + fields, d - 1)
-            elif rv['k'] == 'agg' and rv['adt'] == 'tuple' and fields and fields[0].isdigit() and int(fields[0]) < len(rv['ops']):
-                o = rv['ops'][int(fields[0])]
-                if o['k'] in ('copy', 'move'):
-                    visit(o['pl']['l'], [p['f'] for p in o['pl']['p'] if isinstance(p, dict) and 'f' in p] + fields[1:], d - 1)
-            elif rv['k'] == 'agg' and rv['ops'] and (rv['adt'].endswith('Option::Some') or rv['adt'].endswith('Result::Ok')):
-                o = rv['ops'][0]
-                if o['k'] in ('copy', 'move'): visit(o['pl']['l'], fields[1:] if fields else [], d - 1)
-            elif rv['k'] == 'ref':
-                pl = rv['pl']; visit(pl['l'], [p['f'] for p in pl['p'] if isinstance(p, dict) and 'f' in p] + fields, d - 1)
-    if operand['k'] in ('copy', 'move'):
-        pl = operand['pl']
-        visit(pl['l'], [p['f'] for p in pl['p'] if isinstance(p, dict) and 'f' in p], depth)
-    return out
+# how a test on a kind letter may be written; each form is evaluated under "the kind is variant V" by reach_under
+KIND_TEST_IDIOMS = {
+    'match':    '`match kind { K::A | K::B => .., _ => .. }`: switch on the discriminant of a local of the enum type',
+    'matches':  '`matches!(kind, K::A | K::B)` and `let flag = ..; if flag`: bool assigned a literal in the arms, then copied / negated / tested later',
+    'eq':       '`kind == K::A`, `kind != K::A` (derived PartialEq against a constant variant), possibly stored in a bool first',
+}
+
+
+def reach_under(ctx, b, ty, variant):
+    """blocks reachable from the entry when every test on an enum local of type `ty` is decided as if its value were `variant`
+    (dict with 'discr' and 'name').  Bools are folded flow-insensitively: a bool local all of whose reachable definitions give the same
+    truth value under the assumption is that value everywhere (KIND_TEST_IDIOMS)."""
+    def is_ty(l): return b.locals[l].replace('&', '').strip().split('::')[-1] == ty
+
+    def kind_local(a):
+        """is the operand (a reference to / a copy of) a local of the enum type itself?"""
+        l = a['pl']['l']
+        if [p for p in a['pl']['p'] if p != '*']: return False
+        for _ in range(6):
+            if is_ty(l): return True
+            ds = [d for d in b.defs_of(l)]
+            if len(ds) != 1 or ds[0][0] != 'stmt' or ds[0][2]['dst']['p']: return False
+            rv = ds[0][2]['rv']
+            pl = rv['pl'] if rv['k'] == 'ref' else (rv['ops'][0]['pl'] if rv['k'] == 'use' and rv['ops'][0]['k'] in ('copy', 'move') else None)
+            if pl is None or [p for p in pl['p'] if p != '*']: return False
+            l = pl['l']
+        return False
+
+    def enum_eq(c):
+        """truth value of `a == K::V` / `a != K::V` under the assumption, or None"""
+        if c.item not in ('eq', 'ne') or 'PartialEq' not in (c.trait or '') or len(c.args) != 2: return None
+        sides = []
+        for a in c.args:
+            v = enum_variant_of_operand(ctx, b, a)
+            if isinstance(v, str) and ('::%s::' % ty) in v: sides.append(('const', v.split('::')[-1]))
+            elif a['k'] in ('copy', 'move') and kind_local(a): sides.append(('var', None))
+            else: return None
+        if sorted(s[0] for s in sides) != ['const', 'var']: return None
+        k = [s[1] for s in sides if s[0] == 'const'][0]
+        return (k == variant['name']) == (c.item == 'eq')
+
+    known = {}
+    for _ in range(12):
+        seen = set(); work = [0]
+        while work:
+            x = work.pop()
+            if x in seen: continue
+            seen.add(x)
+            t = b.blocks[x]['term']; succs = b.succ(x)
+            if t['k'] == 'switch' and t['d']['k'] != 'const' and not t['d']['pl']['p']:
+                dl = t['d']['pl']['l']; m = {v: tg for v, tg in t['ts']}
+                if dl in known: succs = [m.get(1 if known[dl] else 0, t['else'])]
+                else:
+                    for k2, b2, d in b.defs_of(dl):
+                        if k2 == 'stmt' and d['rv']['k'] == 'discr' and all(p == '*' for p in d['rv']['pl']['p']) and is_ty(d['rv']['pl']['l']):
+                            succs = [m.get(variant['discr'], t['else'])]
+            for s_ in succs:
+                if not b.blocks[s_]['cleanup']: work.append(s_)
+        new = {}
+        for l, ty_l in enumerate(b.locals):
+            if ty_l != 'bool' or l <= b.argc: continue
+            vals = set()
+            for k2, bi, d in b.defs_of(l):
+                if bi not in seen: continue
+                v = None
+                if k2 == 'stmt' and not d['dst']['p']:
+                    rv = d['rv']; o = rv['ops'][0] if rv.get('ops') else None
+                    if rv['k'] == 'use' and o['k'] == 'const' and o['v'] in ('true', 'false'): v = (o['v'] == 'true')
+                    elif rv['k'] == 'use' and o['k'] in ('copy', 'move') and not o['pl']['p'] and o['pl']['l'] in known: v = known[o['pl']['l']]
+                    elif rv['k'] == 'un' and rv['op'] == 'Not' and o['k'] in ('copy', 'move') and not o['pl']['p'] and o['pl']['l'] in known: v = not known[o['pl']['l']]
+                elif k2 == 'call':
+                    c = [y for y in b.calls if y.bb == bi][0]
+                    if T.NOT_CALL.search(c.name) and c.arg_local(0) in known: v = not known[c.arg_local(0)]
+                    else: v = enum_eq(c)
+                vals.add(v)
+            if len(vals) == 1 and None not in vals: new[l] = vals.pop()
+        if new == known: break
+        known = new
+    return seen
 
 
 def section_rules(ctx):
@@ -146,27 +604,9 @@ def section_rules(ctx):
         readers[f] = [c for c in direct_calls(b, agg_field_operand(st, f), rd) if c.path.startswith('qplib::parser::FileCursor')] or \
             ([c for c in sorted(s.call_objs, key=lambda c: c.line) if c.item == rd and c.path.startswith('qplib::parser::FileCursor')][:1] if f == 'name' else [])
         ctx.check(bool(readers[f]), R + '/reader/' + f, 'T-CARRY', b.name, 'QplibFile.%s is not read with %s (readers in its slice: %s)' % (f, rd, got), b.site(bi))
-    # file order of the sections (the format is positional)
     seq = [c for c in b.calls if c.path.startswith('qplib::parser::FileCursor') and c.item != 'new']
-    order = [c.item for c in sorted(seq, key=lambda c: c.line)]
     # skipping rules keyed by the problem-type letters
     kinds = {'ProbObjKind': ctx.F.adt('qplib::parser::ProbObjKind'), 'ProbVarKind': ctx.F.adt('qplib::parser::ProbVarKind'), 'ProbConstrKind': ctx.F.adt('qplib::parser::ProbConstrKind')}
-    def reach_under(ty, discr):
-        """blocks reachable from the entry when every match on an enum of type `ty` takes the arm of `discr`"""
-        seen = set(); work = [0]
-        while work:
-            x = work.pop()
-            if x in seen: continue
-            seen.add(x)
-            t = b.blocks[x]['term']; succs = b.succ(x)
-            if t['k'] == 'switch' and t['d']['k'] != 'const':
-                for k2, b2, d in b.defs_of(t['d']['pl']['l']):
-                    if k2 == 'stmt' and d['rv']['k'] == 'discr' and b.locals[d['rv']['pl']['l']].split('::')[-1] == ty and not d['rv']['pl']['p']:
-                        m = {v: tg for v, tg in t['ts']}
-                        succs = [m.get(discr, t['else'])]
-            for s_ in succs:
-                if not b.blocks[s_]['cleanup']: work.append(s_)
-        return seen
     _ru = {}
     def skipped_under(call):
         res = {}
@@ -175,7 +615,7 @@ def section_rules(ctx):
             sk = set()
             for v in adt['variants']:
                 key = (ty, v['discr'])
-                if key not in _ru: _ru[key] = reach_under(ty, v['discr'])
+                if key not in _ru: _ru[key] = reach_under(ctx, b, ty, v)
                 if call.bb not in _ru[key]: sk.add(v['name'])
             if sk: res[ty] = sk
         return res
@@ -199,7 +639,7 @@ def section_rules(ctx):
     # number of constraints: 0 for N/B, else read
     ncs = agg_field_operand(st, 'num_constraints')
     s = slice_op(ctx, b, ncs)
-    npc = [c for c in s.call_objs if c.item == 'next_parse']
+    npc = direct_calls(b, ncs, 'next_parse') or [c for c in s.call_objs if c.item == 'next_parse']
     ok = bool(npc) and any(skipped_under(c) == NB for c in npc) and s.has_const(r'^0_usize$')
     ctx.check(ok, R + '/skip/num_constraints', 'T-BRANCHFX', b.name, 'number of constraints is not {N,B => 0, otherwise read}', b.site())
     # variable types: C/B/I derive from the letter, M/G read the section
@@ -207,20 +647,39 @@ def section_rules(ctx):
     cl = [c for c in vt.call_objs if c.item == 'collect_list']
     okv = bool(cl) and any(skipped_under(c) == {'ProbVarKind': {'Continuous', 'Binary', 'Integer'}} for c in cl)
     ctx.check(okv, R + '/skip/var_types', 'T-BRANCHFX', b.name, 'the variable-type section must be read exactly for M and G problems', b.site())
-    consts = sorted({st2['rv']['ops'][0]['v'] if False else st2['rv']['adt'].split('::')[-1] for b2, st2 in b.stmts() if st2['rv']['k'] == 'agg' and 'VarType::' in st2['rv']['adt']})
+    consts = sorted({st2['rv']['adt'].split('::')[-1] for b2, st2 in b.stmts() if st2['rv']['k'] == 'agg' and 'VarType::' in st2['rv']['adt']})
     ctx.check(consts == ['Binary', 'Continuous', 'Integer'], R + '/var-types-from-letter', 'T-TABLE', b.name, 'letter-derived variable types: %s' % consts, b.site())
-    # binary problems: bounds [0,1]
-    vecs = [c for c in b.calls if c.item == 'from_elem' and 'f64' in c.name]
-    vals = sorted({a['v'] for c in vecs for a in c.args[:1] if a['k'] == 'const'})
-    ctx.check(vals == ['0f64', '1f64'], R + '/binary-bounds', 'T-CONST', b.name, 'bounds of an all-binary problem are filled with %s, expected 0 and 1' % vals, b.site())
+    # binary problems: bounds [0,1] -- the only float literal that can become a lower bound is 0, an upper bound 1
+    # (`vec![0.; n]`, `repeat(0.).take(n).collect()`, a helper: any way of filling; which of the two is which is part of the rule)
+    def fill_literals(field):
+        """float literals that can become elements of the list without being read from the file: what goes into the calls that
+        directly produce the value (origin_calls), cursor reads excepted; the slice of the value if no such call is found"""
+        lit = re.compile(r'^-?[0-9.E+-]+f64$'); out = set()
+        op = agg_field_operand(st, field)
+        cs = [c for c in origin_calls(b, op) if not c.path.startswith('qplib::parser::FileCursor')]
+        if not cs: return {c for c in slice_op(ctx, b, op).consts if lit.match(c)}
+        for c in cs:
+            for a in c.args:
+                if a['k'] == 'const':
+                    if lit.match(a['v']): out.add(a['v'])
+                else: out |= {x for x in slice_op(ctx, b, a).consts if lit.match(x)}
+        return out
+    cl_ = fill_literals('lower_bounds'); cu_ = fill_literals('upper_bounds')
+    ctx.check('0f64' in cl_ and '1f64' not in cl_ and '1f64' in cu_ and '0f64' not in cu_, R + '/binary-bounds', 'T-CONST', b.name,
+              'bounds of an all-binary problem: lower bounds can be filled with %s, upper bounds with %s; expected 0 and 1' % (sorted(cl_), sorted(cu_)), b.site())
     # every cursor error is propagated
-    errflow_calls(ctx, 'C19.errors/from_lines/propagate', b, seq, 'cursor error')
-    ctx.check(len(seq) >= 25, 'C19.errors/from_lines/reads', 'T-ERRFLOW', b.name, 'only %d cursor reads found' % len(seq), b.site())
-    # lower before upper (positional format): for each pair the lower read comes first in the file order
+    errflow_calls_ps(ctx, 'C19.errors/from_lines/propagate', b, seq, 'cursor error')
+    # one read per section of the format at least (25 sections: name, type, sense, n, m, Q0, b0 default, b0, q0, Qi, bi, infinity, c_l, c_u, l, u, types,
+    # x0 default, x0, y0 default, y0, z0 default, z0, variable names, constraint names)
+    ctx.check(len(seq) >= 25, 'C19.errors/from_lines/reads', 'T-ERRFLOW', b.name, 'only %d cursor reads found, the format has 25 sections' % len(seq), b.site())
+    # the format is positional: read X comes before read Y iff Y can follow X on some path and X can never follow Y
+    # (from_lines reads each section once; the reads need not dominate each other: `if has_c { read lower }; if has_c { read upper }`)
+    def before(x, y): return x.bb != y.bb and y.bb in b.reach([x.bb]) and x.bb not in b.reach([y.bb])
+    # lower before upper: for each pair the lower read comes first in the file order
     for lo_f, up_f in (('constr_lower_cs', 'constr_upper_cs'), ('lower_bounds', 'upper_bounds')):
         a = readers.get(lo_f); c = readers.get(up_f)
         if a and c:
-            ctx.check(b.dominates(a[0].bb, c[0].bb) and a[0].bb != c[0].bb, R + '/order/%s-before-%s' % (lo_f, up_f), 'T-BRANCHFX', b.name, '%s is read after %s' % (lo_f, up_f), b.site(a[0].bb))
+            ctx.check(before(a[0], c[0]), R + '/order/%s-before-%s' % (lo_f, up_f), 'T-BRANCHFX', b.name, '%s is read after %s' % (lo_f, up_f), b.site(a[0].bb))
     # positional order of the scalar sections
     def first(field):
         cs = readers.get(field) or []
@@ -229,10 +688,18 @@ def section_rules(ctx):
     for x, y in zip(chain, chain[1:]):
         cx, cy = first(x), first(y)
         if cx and cy:
-            ctx.check(b.dominates(cx.bb, cy.bb) and cx.bb != cy.bb, R + '/order/%s-then-%s' % (x, y), 'T-BRANCHFX', b.name, '%s is not read before %s' % (x, y), b.site(cx.bb))
+            ctx.check(before(cx, cy), R + '/order/%s-then-%s' % (x, y), 'T-BRANCHFX', b.name, '%s is not read before %s' % (x, y), b.site(cx.bb))
     q0 = first('q0_non_zeroes'); d0 = first('default_b0')
     if q0 and d0:
-        ctx.check(d0.bb in b.reach([q0.bb]) and q0.bb not in b.reach([d0.bb]), R + '/order/q0-then-b0', 'T-BRANCHFX', b.name, 'Q0 is not read before b0', b.site(q0.bb))
+        ctx.check(before(q0, d0), R + '/order/q0-then-b0', 'T-BRANCHFX', b.name, 'Q0 is not read before b0', b.site(q0.bb))
+
+
+# =============================================================================== C19.errors
+def _line_num_place(b, operand):
+    """does the operand read (an alias of) the cursor's `line_num` field?"""
+    if operand['k'] not in ('copy', 'move'): return False
+    fs, root, calls = T.access_path(b, operand)
+    return any(f == 'line_num' for a, f in fs)
 
 
 def errors_rules(ctx):
@@ -247,23 +714,49 @@ def errors_rules(ctx):
             if 'FromResidual' in c.name and re.search(r'Result<std::convert::Infallible, (qplib::ParseErrorReason|std::num::Parse\w+Error)>', c.name) and 'anyhow::Error' in c.name:
                 bad.append('%s@%s' % (b.name.split('::')[-1], b.site(c.bb)))
     ctx.check(not bad, R + '/line-number-kept', 'T-ERRFLOW', 'qplib::parser::FileCursor', 'errors converted into anyhow::Error without a line number at %s' % bad[:4])
-    # (2) EOF
+    # (2) EOF and the line counter, on the line loop of expect_next.  The loop may be a `for`, a `while let`, `find(..)`, `loop { next().ok_or_else(..)? }`.
     en = [b for b in cur if b.kind == 'fn' and b.hdr.get('item') == 'expect_next']
     if en:
-        b = en[0]
+        b = local_form(ctx, en[0])
+        # the line loop: a `next` loop whose iterator is the cursor's `inner`
+        loops = [lo for lo in T.for_loops(b) if any(f == 'inner' for a, f in local_slicer(ctx).slice_operand(b, lo[0].args[0]).fields)] or T.for_loops(b)
         ue = [c for c in b.calls if c.item == 'unexpected_eof']
-        loops = T.for_loops(b)
-        ok = bool(ue) and bool(loops) and ue[0].bb in b.reach([loops[0][3]]) and T.strip_wrappers(T.expr(b, ue[0].args[0]))[0] in ('place',)
-        ctx.check(ok, R + '/eof', 'T-ERRFLOW', b.name, 'running out of lines is not reported as unexpected_eof(line_num)', b.site())
-        incs = [(bi, st) for bi, st in b.stmts() if st['rv']['k'] == 'bin' and st['rv']['op'].startswith('Add') and any(o['k'] == 'const' and o['v'] == '1_usize' for o in st['rv']['ops']) and bi in (loops[0][4] if loops else set())]
-        ctx.check(bool(incs) and bool(loops) and T.must_pass(b, loops[0][2], {loops[0][1]} | b.strict_ok_exits(), {incs[0][0]}), R + '/line-counter', 'T-LOOPMUST', b.name, 'line counter is not advanced for every consumed line', b.site())
+        ok = False; why = 'no unexpected_eof call / no line loop'
+        if ue and loops:
+            lo = loops[0]; none_bb = lo[3]
+            eof_reg = reach_ps(b, [none_bb])
+            hit = [c for c in ue if c.bb in eof_reg]
+            why = []
+            if not hit: why.append('the exhausted-iterator side does not reach unexpected_eof')
+            if hit and not _line_num_place(b, hit[0].args[0]): why.append('unexpected_eof is not given line_num')
+            if hit and not flows_to_return(b, hit[0].dst['l']): why.append('the unexpected_eof error is not returned')
+            if eof_reg & b.strict_ok_exits(): why.append('the exhausted-iterator side reaches an Ok-exit')
+            ok = not why; why = '; '.join(why)
+        ctx.check(ok, R + '/eof', 'T-ERRFLOW', b.name, 'running out of lines is not reported as unexpected_eof(line_num): %s' % why, b.site())
+        # line counter: on every path from "a line was taken" to the next iteration or to an Ok-exit, `line_num` is incremented by one and stored back
+        okc = False
+        if loops:
+            lo = loops[0]
+            stores = set()
+            for bi, st in b.stmts():
+                rv = st['rv']
+                if bi in lo[4] and rv['k'] == 'bin' and rv['op'].startswith('Add') and any(o['k'] == 'const' and o['v'] == '1_usize' for o in rv['ops']) and any(_line_num_place(b, o) for o in rv['ops']):
+                    tmp = st['dst']
+                    if tmp['p'] and any(f == 'line_num' for a, f in T.access_path(b, {'k': 'copy', 'pl': tmp})[0]): stores.add(bi); continue
+                    # checked add: `(t, overflow) = a + 1; assert; place = t.0`
+                    for b2, st2 in b.stmts():
+                        if st2['rv']['k'] == 'use' and st2['rv']['ops'][0]['k'] in ('copy', 'move') and st2['rv']['ops'][0]['pl']['l'] == tmp['l'] and st2['dst']['p'] \
+                                and any(f == 'line_num' for a, f in T.access_path(b, {'k': 'copy', 'pl': st2['dst']})[0]):
+                            stores.add(b2)
+            okc = bool(stores) and T.must_pass(b, lo[2], {lo[1]} | b.strict_ok_exits(), stores)
+        ctx.check(okc, R + '/line-counter', 'T-LOOPMUST', b.name, 'line counter is not advanced for every consumed line', b.site())
     # (3) with_line receives the cursor's current line
-    n = 0
     for b in cur:
         for c in b.calls:
             if c.item in ('with_line', 'invalid_line', 'unexpected_eof') and c.path.startswith('qplib::'):
                 a = c.args[-1]
                 fs = [f for a_, f in T.expr_fields(T.expr(b, a, depth=8))]
+                if 'line_num' not in fs and _line_num_place(b, a): fs.append('line_num')
                 if b.kind == 'closure' and 'line_num' not in fs:
                     # value captured by the closure: look at what the parent stores in that capture slot
                     slots = [f for a_, f in T.expr_fields(T.expr(b, a, depth=8)) if a_ == 'closure']
@@ -272,7 +765,7 @@ def errors_rules(ctx):
                         for bi2, st2, cl in par.closures_created():
                             if cl == b.name and slots and slots[0].isdigit() and int(slots[0]) < len(st2['rv']['ops']):
                                 fs = fs + [f for a_, f in T.expr_fields(T.expr(par, st2['rv']['ops'][int(slots[0])], depth=8))]
-                n += 1
+                                if _line_num_place(par, st2['rv']['ops'][int(slots[0])]): fs.append('line_num')
                 ctx.check('line_num' in fs, R + '/line-argument', 'T-CARRY', b.name, '%s is not given the cursor\'s line_num' % c.item, b.site(c.bb))
     # (4) no panic on malformed indices: 1-based indices are parsed as NonZero before `- 1`, table slots via get_mut
     for b in cur:
@@ -292,135 +785,280 @@ def errors_rules(ctx):
     ctx.floor('C19.errors', 20)
 
 
+# =============================================================================== C19.infinity / C19.convert
+def _inf_consts(ctx, b, blocks, depth=3, _seen=None):
+    """'+inf' / '-inf' for every f64 infinity constant used in `blocks` of b or in the crate closures / functions called or built there"""
+    _seen = _seen if _seen is not None else set()
+    out = set()
+    def of(v): return '-inf' if 'NEG_INFINITY' in v else ('+inf' if 'INFINITY' in v else None)
+    for bi, st in b.stmts():
+        if bi not in blocks: continue
+        for o in st['rv'].get('ops', []):
+            if o['k'] == 'const' and of(o['v']): out.add(of(o['v']))
+        if st['rv']['k'] == 'agg' and st['rv']['adt'].startswith('closure:') and depth > 0:
+            cb = ctx.F.bodies.get(st['rv']['adt'][8:])
+            if cb is not None and cb.name not in _seen:
+                _seen.add(cb.name); out |= _inf_consts(ctx, cb, cb.live, depth - 1, _seen)
+    for c in b.calls:
+        if c.bb not in blocks: continue
+        for a in c.args:
+            if a['k'] == 'const' and of(a['v']): out.add(of(a['v']))
+        cb = ctx.F.bodies.get(c.path) or ctx.F.bodies.get(c.name)
+        if cb is not None and depth > 0 and cb.name not in _seen and cb.name.startswith('qplib::'):
+            _seen.add(cb.name); out |= _inf_consts(ctx, cb, cb.live, depth - 1, _seen)
+    return out
+
+
+def infinity_rules(ctx, conv):
+    R = 'C19.infinity'
+    if conv is not None:
+        ai = [c for c in conv.calls if c.item == 'apply_infinity_threshold']
+        # every other qplib function `convert` calls (the conversions) runs after the threshold was applied
+        others = [c for c in conv.calls if c.path.startswith('qplib::') and c.item != 'apply_infinity_threshold' and (ctx.F.bodies.get(c.path) is not None)]
+        ctx.check(len(ai) >= 1 and bool(others) and all(conv.dominates(ai[0].bb, c.bb) for c in others), R + '/applied-first', 'T-MUSTCALL', conv.name,
+                  'apply_infinity_threshold is not called before the conversion', conv.site())
+    at = ctx.method(R + '/anchor', QF, 'apply_infinity_threshold')
+    if at is None: return
+    # routing: the loop over list L replaces with the infinity of L's side.  Per list: the infinities used inside the loops over it.
+    want = {'lower_bounds': ['-inf'], 'constr_lower_cs': ['-inf'], 'upper_bounds': ['+inf'], 'constr_upper_cs': ['+inf']}
+    rows = {}
+    for lo in T.for_loops(at):
+        s = ctx.S.slice_operand(at, lo[0].args[0])
+        flds = sorted({f for (pi, a, f) in s.root_fields if f in want} | {f for a, f in s.fields if a.endswith('QplibFile') and f in want})
+        body_blocks = lo[4] - {lo[3]}
+        infs = _inf_consts(ctx, at, body_blocks)
+        # the value stored through the item reference inside the loop (a helper's parameter after inlining, a local `let inf = ..`)
+        for b2, s2 in at.stmts():
+            if b2 in body_blocks and s2['dst']['p'] and s2['dst']['p'][0] == '*' and s2['rv']['k'] == 'use' and 'f64' in at.locals[s2['dst']['l']]:
+                for cst in ctx.S.slice_operand(at, s2['rv']['ops'][0]).consts:
+                    if 'INFINITY' in cst: infs.add('-inf' if 'NEG_INFINITY' in cst else '+inf')
+        for f in flds: rows[f] = sorted(set(rows.get(f, [])) | infs)
+    if not rows and all(ctx.S.backslice(at, [1]).has_field(QF, f) for f in want):
+        # no loop over the lists recognised: weaker condition = both infinities occur and all four lists are touched
+        both = _inf_consts(ctx, at, at.live) == {'+inf', '-inf'}
+        ctx.check(both, R + '/routing/both-infinities', 'T-BRANCHFX', at.name, 'apply_infinity_threshold does not use both infinities', at.site())
+        ctx.undecided(R + '/routing', 'T-BRANCHFX', at.site(), 'no loop over the four bound lists recognised')
+    else:
+        ctx.check(rows == want, R + '/routing', 'T-BRANCHFX', at.name, 'infinity routing is %s, expected %s' % (rows, want), at.site(), table=str(rows))
+    # |v| >= threshold: the replacement happens exactly on the `abs(v) >= t` side.  Idioms: `a >= t` == `t <= a` with a = v.abs().
+    # (`!(a < t)` is NOT in the list: it differs for NaN, which `parse::<f64>` accepts)
+    okc = False; seen_cmp = []
+    for cb in [at] + list(ctx.F.closures_of(at)):
+        for bi, st in float_cmp_sites(cb, ('Ge', 'Gt', 'Le', 'Lt')):
+            l = T.expr(cb, st['rv']['ops'][0]); r = T.expr(cb, st['rv']['ops'][1]); op = st['rv']['op']
+            la, ra = T.expr_has_call(l, 'abs'), T.expr_has_call(r, 'abs')
+            if la == ra: continue
+            if ra: op = {'Ge': 'Le', 'Le': 'Ge', 'Gt': 'Lt', 'Lt': 'Gt'}[op]       # write as `abs OP t`
+            for g in T.guards_from_local(cb, st['dst']['l'], bi):
+                tr, fr = exclusive_regions(cb, bi, g.true_bb, g.false_bb)
+                def stores(reg): return any(b2 in reg and s2['dst']['p'] and cb.locals[s2['dst']['l']].replace('&mut ', '').strip() == 'f64' for b2, s2 in cb.stmts())
+                st_true, st_false = stores(tr), stores(fr)
+                seen_cmp.append((op, st_true, st_false))
+                if op == 'Ge' and st_true and not st_false: okc = True
+    ctx.check(okc, R + '/comparison', 'T-BRANCHFX', at.name, 'infinite values are not detected by `|v| >= threshold` (comparisons with abs: %s)' % seen_cmp, at.site())
+
+
+def half_rules(ctx):
+    R = 'C19.convert'
+    tq = ctx.free_fn(R + '.half/anchor', 'qplib::convert::to_quadratic')
+    if tq is None: return
+    cmps = [(bi, st) for bi, st in tq.stmts() if st['rv']['k'] == 'bin' and st['rv']['op'] in ('Eq', 'Ne') and st['rv'].get('ty') in ('usize', 'u64', '&usize')]
+    calls = [c for c in tq.calls if c.item in ('eq', 'ne') and 'usize' in c.name]
+    diag = None
+    for bi, st in cmps:
+        for g in T.guards_from_local(tq, st['dst']['l'], bi):
+            diag = (g.true_bb, g.false_bb) if st['rv']['op'] == 'Eq' else (g.false_bb, g.true_bb)
+    for c in calls:
+        for g in T.guards_from_call(tq, c):
+            diag = (g.true_bb, g.false_bb) if c.item == 'eq' else (g.false_bb, g.true_bb)
+    ctx.check(diag is not None, R + '.half/diagonal-distinguished', 'T-BRANCHFX', tq.name,
+              'entries with i == j are not treated differently from i != j (QPLIB: 1/2 x\'Qx with the lower triangle listed, so the diagonal must be halved)', tq.site())
+    if diag is not None:
+        hdrs = set(tq.loops())
+        dr = tq.reach([diag[0]], stop=hdrs) - tq.reach([diag[1]], stop=hdrs); orr = tq.reach([diag[1]], stop=hdrs) - tq.reach([diag[0]], stop=hdrs)
+        def scaled(reg):
+            out = []
+            for bi, st in tq.stmts():
+                if bi in reg and st['rv']['k'] == 'bin' and st['rv'].get('ty') == 'f64' and st['rv']['op'] in ('Div', 'Mul'):
+                    # a literal or a named `const` item (resolved through the crate's constant table)
+                    cs = [T.f64_const(ctx.F.consts[o['v']][1]) if o['v'] in ctx.F.consts else T.f64_const(o['v']) for o in st['rv']['ops'] if o['k'] == 'const']
+                    out.append((st['rv']['op'], cs[0] if cs else None))
+            return out
+        ctx.check(scaled(dr) in ([('Div', 2.0)], [('Mul', 0.5)]) and scaled(orr) == [], R + '.half/diagonal-halved', 'T-BRANCHFX', tq.name,
+                  'diagonal entries are scaled by %s and off-diagonal ones by %s; expected /2 and nothing' % (scaled(dr), scaled(orr)), tq.site())
+    aggs = find_aggregates(tq, 'v1::Quadratic')
+    for bi, st in aggs:
+        d = dict(zip(st['rv']['fields'], st['rv']['ops']))
+        roots = {f: T.access_path(tq, d[f], transparent=T.TRANSPARENT_NOCLONE)[1] for f in ('rows', 'columns', 'values')}
+        push_roots = {}; push_calls = {}
+        for c in tq.calls:
+            if c.item == 'push':
+                r = T.access_path(tq, c.args[0], transparent=T.TRANSPARENT_NOCLONE)[1]
+                fs = [f for a, f in T.expr_fields(T.expr(tq, c.args[1], depth=10)) if a == 'tuple']
+                push_roots[r] = fs; push_calls.setdefault(r, []).append(c)
+        # every entry of the map gives one element of rows, columns and values: each vector is pushed on every pass of a loop over all entries
+        probs = []
+        for f in ('rows', 'columns', 'values'):
+            ps = push_calls.get(roots[f], [])
+            los = [lo for lo in T.for_loops(tq) if any(c.bb in lo[4] for c in ps)]
+            if not ps or not los: probs.append('%s is not filled in a loop' % f); continue
+            for lo in los:
+                if not T.must_pass(tq, lo[2], {lo[1]}, {c.bb for c in ps if c.bb in lo[4]}): probs.append('a pass of the loop can skip the push to %s' % f)
+                si = ctx.S.slice_operand(tq, lo[0].args[0])
+                if 1 not in si.params: probs.append('the loop filling %s does not run over the coefficient map' % f)
+                restr = sorted({x.item for x in si.call_objs if x.item in RESTRICTING and 'Iterator' in (x.trait or '')})
+                if restr: probs.append('the loop filling %s is restricted by %s' % (f, restr))
+        ctx.check(not probs, R + '.half/every-entry', 'T-LOOPMUST', tq.name, 'an entry can be dropped or partially pushed: %s' % '; '.join(probs), tq.site())
+        ok = push_roots.get(roots['rows'], [None])[-1:] == ['0'] and push_roots.get(roots['columns'], [None])[-1:] == ['1']
+        ctx.check(ok, R + '.half/row-col-order', 'T-CARRY', tq.name, 'rows / columns are not filled from (i, j) in this order: %s' % push_roots, tq.site(bi))
+
+
+def sign_rules(ctx):
+    """two-sided constraints c_l <= f(x) <= c_u.  Per side, inside the region guarded by `c != +-inf`:
+       upper: f(x) - c_u <= 0   : constant -c_u, coefficients as they are, id i
+       lower: -f(x) + c_l <= 0  : constant +c_l, both coefficient lists * -1, id m + i
+    and the constraint built there is `<= 0` and reaches the returned list."""
+    R = 'C19.convert.sign'
+    cc0 = ctx.free_fn(R + '/anchor', 'qplib::convert::convert_constraints')
+    if cc0 is None: return
+    cc = local_form(ctx, cc0)
+    LS = local_slicer(ctx) if cc is not cc0 else ctx.S
+    sides = {}; idx_of = {}; bound_op = {}
+    for bi, st in float_cmp_sites(cc, ('Ne', 'Eq')):
+        infs = [o['v'] for o in st['rv']['ops'] if o['k'] == 'const' and 'INFINITY' in o['v']]
+        if not infs: continue
+        key = '-inf' if 'NEG_' in infs[0] else '+inf'
+        other = [o for o in st['rv']['ops'] if o['k'] != 'const']
+        if not other: continue
+        bound = T.expr(cc, other[0], depth=10)
+        idx = [f for a, f in T.expr_fields(bound) if a == 'tuple']
+        for g in T.guards_from_local(cc, st['dst']['l'], bi):
+            emit, skip = (g.true_bb, g.false_bb) if st['rv']['op'] == 'Ne' else (g.false_bb, g.true_bb)
+            reg, _ = exclusive_regions(cc, bi, emit, skip)
+            idx_of[key] = idx; bound_op[key] = other[0]
+            # (a) the constant handed to wrap_function: +-bound
+            const_sign = None
+            wf = [c for c in cc.calls if c.bb in reg and c.item == 'wrap_function']
+            if len(wf) == 1 and len(wf[0].args) == 3:
+                sg, core = sign_and_core(T.expr(cc, wf[0].args[2], depth=10))
+                same = [f for a, f in T.expr_fields(core) if a == 'tuple'] == idx and not any(x[0] in ('bin', 'un') for x in T.expr_walk(T.strip_wrappers(core)))
+                const_sign = sg if same else 'other'
+            # (b) coefficient lists multiplied by -1 in place inside the region (`*v *= -1.`, `*v = -*v`)
+            negated = set()
+            for b2, s2 in cc.stmts():
+                if b2 not in reg or not s2['dst']['p']: continue
+                rv = s2['rv']
+                isneg = (rv['k'] == 'bin' and rv['op'] == 'Mul' and any(o['k'] == 'const' and T.f64_const(o['v']) == -1.0 for o in rv['ops'])) or (rv['k'] == 'un' and rv['op'] == 'Neg')
+                if not isneg or not any(_reads_place(cc, o, s2['dst']) for o in rv['ops']): continue
+                fl = {f for a, f in LS.slice_operand(cc, {'k': 'copy', 'pl': {'l': s2['dst']['l'], 'p': []}}).fields} | {f for a, f in fields_of_place(s2['dst'])}
+                if 'values' in fl: negated.add('quadratic.values')
+                if 'terms' in fl or 'coefficient' in fl: negated.add('linear.terms')
+            for c in cc.calls:           # `*v *= -1.` through the MulAssign trait (generic code)
+                if c.bb in reg and T.ASSIGN_CALL.match(c.name) and 'Mul' in c.name and any(a['k'] == 'const' and T.f64_const(a['v']) == -1.0 for a in c.args):
+                    fl = {f for a, f in LS.slice_operand(cc, c.args[0]).fields}
+                    if 'values' in fl: negated.add('quadratic.values')
+                    if 'terms' in fl or 'coefficient' in fl: negated.add('linear.terms')
+            # (c) the constraint built in the region
+            ids = []; le = []; emitted = []
+            for b2, st2 in find_aggregates(cc, 'v1::Constraint'):
+                if b2 not in reg: continue
+                ix = T.expr(cc, agg_field_operand(st2, 'id'), depth=10)
+                add = any((x[0] == 'bin' and x[1].startswith('Add')) or (x[0] == 'call' and x[1] == 'add') for x in T.expr_walk(ix))
+                m = (QF, 'num_constraints') in T.expr_fields(ix)
+                ids.append('m+i' if add and m else ('i' if not add and not m else 'other'))
+                le.append(slice_op(ctx, cc, agg_field_operand(st2, 'equality')).has_const(r'Equality::LessThanOrEqualToZero') if cc is cc0 else LS.slice_operand(cc, agg_field_operand(st2, 'equality')).has_const(r'Equality::LessThanOrEqualToZero'))
+                emitted.append(flows_to_return(cc, st2['dst']['l']))
+            sides[key] = dict(constant=const_sign, negated=sorted(negated), ids=ids, le=le, emitted=emitted, site=cc.site(bi))
+    want = {'+inf': dict(constant=-1, negated=[], ids=['i'], le=[True], emitted=[True]),
+            '-inf': dict(constant=1, negated=['linear.terms', 'quadratic.values'], ids=['m+i'], le=[True], emitted=[True])}
+    text = {'+inf': 'upper side (emitted iff c_u != +inf): constant -c_u, coefficients kept, id i',
+            '-inf': 'lower side (emitted iff c_l != -inf): all coefficients * -1, constant +c_l, id m+i'}
+    for key in ('+inf', '-inf'):
+        got = sides.get(key)
+        name = 'upper' if key == '+inf' else 'lower'
+        if got is None:
+            ctx.bad(R + '/%s/guard' % name, 'T-BRANCHFX', cc.name, 'no test `c != %s` guarding the %s side' % (key, name), cc.site()); continue
+        site = got.pop('site')
+        for k in ('constant', 'negated', 'ids', 'le', 'emitted'):
+            ctx.check(got[k] == want[key][k], R + '/%s/%s' % (name, k), 'T-BRANCHFX', cc.name, '%s: %s is %s, expected %s  [%s]' % (name, k, got[k], want[key][k], text[key]), site, table=str(got))
+    # which bound list feeds which test (LIST_SOURCE_IDIOMS)
+    for key, name, want_list in (('+inf', 'upper', 'constr_upper_cs'), ('-inf', 'lower', 'constr_lower_cs')):
+        op = bound_op.get(key)
+        if op is None: continue
+        src = source_list(ctx, cc, op, ('constr_lower_cs', 'constr_upper_cs', 'bs_non_zeroes'))
+        if src is None:
+            # weaker, still checked: the two tests look at different values and the tested value depends on the right list at all
+            sl = LS.slice_operand(cc, op)
+            ctx.check(sl.has_field(QF, want_list) and bound_op.get('+inf') != bound_op.get('-inf') and idx_of.get('+inf') != idx_of.get('-inf'), R + '/side-uses-its-own-bound/%s/depends' % name, 'T-CARRY', cc.name,
+                      'the value compared with %s does not depend on %s' % (key, want_list), cc.site())
+            ctx.undecided(R + '/side-uses-its-own-bound/' + name, 'T-CARRY', cc.site(), 'cannot tie the value compared with %s to one of the zipped lists' % key)
+        else:
+            ctx.check(src == want_list, R + '/side-uses-its-own-bound/' + name, 'T-CARRY', cc.name, 'the value compared with %s is an element of %s, it must be one of %s' % (key, src, want_list), cc.site())
+
+
+def wrap_rules(ctx):
+    """wrap_function(quad, linear, constant): whatever representation is chosen, the constant and the linear part are in it"""
+    R = 'C19.convert.wrap'
+    b = ctx.free_fn(R + '/anchor', 'qplib::convert::wrap_function')
+    if b is None: return
+    fp = [i for i in range(1, b.argc + 1) if b.locals[i] == 'f64']
+    if len(fp) != 1:
+        ctx.bad(R + '/constant-kept', 'T-CARRY', b.name, 'wrap_function has no single f64 parameter', b.site()); return
+    K = fp[0]
+    def is_const_param(o): return T.strip_wrappers(T.expr(b, o)) == ('place', K, [])
+    def root_of(o): return T.access_path(b, o, transparent=T.TRANSPARENT_NOCLONE)[1]
+    # writes `X.constant = constant` / `Q.linear = Some(L)`: (block, index in block, root written, root of the value)
+    cw = []; lw = []
+    for bi in sorted(b.live):
+        for si, st in enumerate(b.blocks[bi]['st']):
+            if 'dst' not in st or not st['dst']['p']: continue
+            last = fields_of_place(st['dst'])[-1:]
+            if last == [('v1::Linear', 'constant')] and st['rv']['k'] == 'use' and is_const_param(st['rv']['ops'][0]): cw.append((bi, si, st['dst']['l']))
+            if last == [('v1::Quadratic', 'linear')]:
+                e = T.expr(b, st['rv']['ops'][0]) if st['rv'].get('ops') else None
+                src = None
+                for k2, b2, d2 in (b.defs_of(st['rv']['ops'][0]['pl']['l']) if st['rv']['k'] == 'use' and st['rv']['ops'][0]['k'] in ('copy', 'move') else []):
+                    if k2 == 'stmt' and d2['rv']['k'] == 'agg' and d2['rv']['adt'].endswith('Option::Some'): src = root_of(d2['rv']['ops'][0])
+                lw.append((bi, si, st['dst']['l'], src))
+    def preceded(agg_bb, agg_si, writes):
+        """every path from the entry to the aggregate passes one of the writes"""
+        same = [w for w in writes if w[0] == agg_bb and w[1] < agg_si]
+        if same: return True
+        via = {w[0] for w in writes if w[0] != agg_bb}
+        return bool(via) and T.must_pass(b, 0, {agg_bb}, via)
+    forms = {'Constant': [], 'Linear': [], 'Quadratic': []}
+    for bi in sorted(b.live):
+        for si, st in enumerate(b.blocks[bi]['st']):
+            if 'dst' in st and st['rv']['k'] == 'agg':
+                for f in forms:
+                    if st['rv']['adt'].endswith('function::Function::' + f): forms[f].append((bi, si, st))
+    probs = []
+    for bi, si, st in forms['Constant']:
+        if not is_const_param(st['rv']['ops'][0]): probs.append('Function::Constant is not built from the constant')
+    for bi, si, st in forms['Linear']:
+        r = root_of(st['rv']['ops'][0])
+        if not preceded(bi, si, [w for w in cw if w[2] == r]): probs.append('a Function::Linear is built without `linear.constant = constant` on the way')
+    ctx.check(not probs and (forms['Constant'] or forms['Linear'] or forms['Quadratic']), R + '/constant-kept', 'T-CARRY', b.name,
+              'the constant is not carried into every form (constant / linear / quadratic): %s' % '; '.join(probs), b.site())
+    probs = []
+    for bi, si, st in forms['Quadratic']:
+        r = root_of(st['rv']['ops'][0])
+        mine = [w for w in lw if w[2] == r]
+        if not preceded(bi, si, mine): probs.append('a Function::Quadratic is built without `quad.linear = Some(linear)` on the way'); continue
+        lin = {w[3] for w in mine}
+        if not preceded(bi, si, [w for w in cw if w[2] in lin]): probs.append('a Function::Quadratic is built without `linear.constant = constant` on the way')
+    ctx.check(not probs and bool(forms['Quadratic']), R + '/linear-attached', 'T-CARRY', b.name,
+              'the linear part (with the constant) is not attached to the quadratic function: %s' % ('; '.join(probs) or 'no Function::Quadratic built'), b.site())
+
+
 def convert_rules(ctx):
     R = 'C19.convert'
     b = ctx.free_fn(R + '/anchor', 'qplib::convert::convert')
     if b is None: return
     cover(ctx, R + '.cover', b, QF, exempt=STARTING)
-    ai = [c for c in b.calls if c.item == 'apply_infinity_threshold']
-    others = [c for c in b.calls if c.item.startswith('convert_')]
-    ctx.check(len(ai) == 1 and all(b.dominates(ai[0].bb, c.bb) for c in others) and len(others) == 5, 'C19.infinity/applied-first', 'T-MUSTCALL', b.name, 'apply_infinity_threshold is not called before the conversion', b.site())
-    # infinity threshold routing
-    at = ctx.method('C19.infinity/anchor', QF, 'apply_infinity_threshold')
-    if at is not None:
-        rows = {}
-        for c in at.calls:
-            if c.item == 'for_each':
-                flds = sorted({f for (pi, a, f) in ctx.S.slice_operand(at, c.args[0]).root_fields})
-                cls = ctx.S.slice_operand(at, c.args[1]).closures
-                infs = set()
-                for cn in cls:
-                    cb = ctx.F.bodies.get(cn)
-                    if cb is None: continue
-                    for x in cb.calls:
-                        for a in x.args:
-                            if a['k'] == 'const' and 'INFINITY' in a['v']: infs.add('-inf' if 'NEG_' in a['v'] else '+inf')
-                    for b2, st in cb.stmts():
-                        for o in st['rv'].get('ops', []):
-                            if o['k'] == 'const' and 'INFINITY' in o['v']: infs.add('-inf' if 'NEG_' in o['v'] else '+inf')
-                for f in flds:
-                    if f != 'infinity_threshold': rows[f] = sorted(infs)
-        want = {'lower_bounds': ['-inf'], 'constr_lower_cs': ['-inf'], 'upper_bounds': ['+inf'], 'constr_upper_cs': ['+inf']}
-        ctx.check(rows == want, 'C19.infinity/routing', 'T-BRANCHFX', at.name, 'infinity routing is %s, expected %s' % (rows, want), at.site(), table=str(rows))
-        # |v| >= threshold
-        okc = False
-        for cb in ctx.F.closures_of(at):
-            for bi, st in float_cmp_sites(cb, ('Ge', 'Gt', 'Le', 'Lt')):
-                l = T.expr(cb, st['rv']['ops'][0]); r = T.expr(cb, st['rv']['ops'][1])
-                if T.expr_has_call(l, 'abs') and st['rv']['op'] == 'Ge': okc = True
-                if T.expr_has_call(r, 'abs') and st['rv']['op'] == 'Le': okc = True
-        ctx.check(okc, 'C19.infinity/comparison', 'T-BRANCHFX', at.name, 'infinite values are not detected by `|v| >= threshold`', at.site())
-    # half convention for the diagonal of Q
-    tq = ctx.free_fn(R + '.half/anchor', 'qplib::convert::to_quadratic')
-    if tq is not None:
-        cmps = [(bi, st) for bi, st in tq.stmts() if st['rv']['k'] == 'bin' and st['rv']['op'] in ('Eq', 'Ne') and st['rv'].get('ty') in ('usize', 'u64', '&usize')]
-        calls = [c for c in tq.calls if c.item in ('eq', 'ne') and 'usize' in c.name]
-        diag = None
-        for bi, st in cmps:
-            for g in T.guards_from_local(tq, st['dst']['l'], bi):
-                diag = (g.true_bb, g.false_bb) if st['rv']['op'] == 'Eq' else (g.false_bb, g.true_bb)
-        for c in calls:
-            for g in T.guards_from_call(tq, c):
-                diag = (g.true_bb, g.false_bb) if c.item == 'eq' else (g.false_bb, g.true_bb)
-        ctx.check(diag is not None, R + '.half/diagonal-distinguished', 'T-BRANCHFX', tq.name,
-                  'entries with i == j are not treated differently from i != j (QPLIB: 1/2 x\'Qx with the lower triangle listed, so the diagonal must be halved)', tq.site())
-        if diag is not None:
-            hdrs = set(tq.loops())
-            dr = tq.reach([diag[0]], stop=hdrs) - tq.reach([diag[1]], stop=hdrs); orr = tq.reach([diag[1]], stop=hdrs) - tq.reach([diag[0]], stop=hdrs)
-            def scaled(reg):
-                out = []
-                for bi, st in tq.stmts():
-                    if bi in reg and st['rv']['k'] == 'bin' and st['rv'].get('ty') == 'f64' and st['rv']['op'] in ('Div', 'Mul'):
-                        cs = [T.f64_const(o['v']) for o in st['rv']['ops'] if o['k'] == 'const']
-                        out.append((st['rv']['op'], cs[0] if cs else None))
-                return out
-            ctx.check(scaled(dr) in ([('Div', 2.0)], [('Mul', 0.5)]) and scaled(orr) == [], R + '.half/diagonal-halved', 'T-BRANCHFX', tq.name,
-                      'diagonal entries are scaled by %s and off-diagonal ones by %s; expected /2 and nothing' % (scaled(dr), scaled(orr)), tq.site())
-        # rows/columns/values of the same entry, every entry
-        for lo in T.for_loops(tq):
-            for f in ('u64', 'u64', 'f64'):
-                pass
-            pushes = [c for c in tq.calls if c.bb in lo[4] and c.item == 'push']
-            ctx.check(len(pushes) == 3 and all(T.must_pass(tq, lo[2], {lo[1]}, {c.bb}) for c in pushes), R + '.half/every-entry', 'T-LOOPMUST', tq.name, 'an entry can be dropped or partially pushed', tq.site())
-        aggs = find_aggregates(tq, 'v1::Quadratic')
-        for bi, st in aggs:
-            d = dict(zip(st['rv']['fields'], st['rv']['ops']))
-            roots = {f: T.access_path(tq, d[f], transparent=T.TRANSPARENT_NOCLONE)[1] for f in ('rows', 'columns', 'values')}
-            push_roots = {}
-            for c in tq.calls:
-                if c.item == 'push':
-                    r = T.access_path(tq, c.args[0], transparent=T.TRANSPARENT_NOCLONE)[1]
-                    fs = [f for a, f in T.expr_fields(T.expr(tq, c.args[1], depth=10)) if a == 'tuple']
-                    push_roots[r] = fs
-            ok = push_roots.get(roots['rows'], [None])[-1:] == ['0'] and push_roots.get(roots['columns'], [None])[-1:] == ['1']
-            ctx.check(ok, R + '.half/row-col-order', 'T-CARRY', tq.name, 'rows / columns are not filled from (i, j) in this order: %s' % push_roots, tq.site(bi))
-    # two-sided constraints
-    cc = ctx.free_fn(R + '.sign/anchor', 'qplib::convert::convert_constraints')
-    if cc is not None:
-        sides = {}
-        inf_blocks = {bi for bi, st in float_cmp_sites(cc, ('Ne', 'Eq')) if any(o['k'] == 'const' and 'INFINITY' in o['v'] for o in st['rv']['ops'])}
-        idx_of = {}
-        for bi, st in float_cmp_sites(cc, ('Ne', 'Eq')):
-            infs = [o['v'] for o in st['rv']['ops'] if o['k'] == 'const' and 'INFINITY' in o['v']]
-            if not infs: continue
-            other = [o for o in st['rv']['ops'] if o['k'] != 'const']
-            src = [f for a, f in ctx.S.slice_operand(cc, other[0]).fields if a.endswith('QplibFile')] if other else []
-            fs_direct = T.expr_fields(T.expr(cc, other[0], depth=10)) if other else []
-            idx = [f for a, f in fs_direct if a == 'tuple']
-            for g in T.guards_from_local(cc, st['dst']['l'], bi):
-                emit = g.true_bb if st['rv']['op'] == 'Ne' else g.false_bb; skip = g.false_bb if st['rv']['op'] == 'Ne' else g.true_bb
-                hdrs = set(cc.loops())
-                reg = cc.reach([emit], stop=hdrs | {skip} | (inf_blocks - {bi}))
-                idx_of['-inf' if 'NEG_' in infs[0] else '+inf'] = idx
-                wf = [c for c in cc.calls if c.bb in reg and c.item == 'wrap_function']
-                negs_c = False; neg_terms = 0
-                if wf:
-                    cx = T.expr(cc, wf[0].args[2], depth=8)
-                    negs_c = any(x[0] == 'un' and x[1] == 'Neg' for x in T.expr_walk(cx))
-                for bi_, st_, cl in cc.closures_created():
-                    if bi_ in reg:
-                        cb = ctx.F.bodies.get(cl)
-                        if cb is not None and any(T.ASSIGN_CALL.match(x.name) and 'Mul' in x.name and any(a['k'] == 'const' and a['v'] == '-1f64' for a in x.args) for x in cb.calls): neg_terms += 1
-                        if cb is not None and any(s2['rv']['k'] == 'bin' and s2['rv']['op'] == 'Mul' and any(o['k'] == 'const' and o['v'] == '-1f64' for o in s2['rv']['ops']) for b2, s2 in cb.stmts()): neg_terms += 1
-                ids = []
-                for b2, st2 in find_aggregates(cc, 'v1::Constraint'):
-                    if b2 in reg:
-                        ix = T.expr(cc, agg_field_operand(st2, 'id'), depth=10)
-                        ids.append('m+i' if any((x[0] == 'bin' and x[1].startswith('Add')) or (x[0] == 'call' and x[1] == 'add') for x in T.expr_walk(ix)) and ('qplib::parser::QplibFile', 'num_constraints') in T.expr_fields(ix) else 'i')
-                        eqc = slice_op(ctx, cc, agg_field_operand(st2, 'equality'))
-                        ids.append('le' if eqc.has_const(r'Equality::LessThanOrEqualToZero') else 'other')
-                key = '-inf' if 'NEG_' in infs[0] else '+inf'
-                sides[key] = dict(neg_constant=negs_c, negated_parts=neg_terms, ids=ids, pushes=len([c for c in cc.calls if c.bb in reg and c.item == 'push' and 'v1::Constraint' in c.name]))
-        want = {'+inf': dict(neg_constant=True, negated_parts=0, ids=['i', 'le'], pushes=1), '-inf': dict(neg_constant=False, negated_parts=2, ids=['m+i', 'le'], pushes=1)}
-        ctx.check(sides == want, R + '.sign/two-sides', 'T-BRANCHFX', cc.name,
-                  'sides are %s; expected upper: emitted iff c_u != +inf, constant -c_u, coefficients kept, id i; lower: emitted iff c_l != -inf, all coefficients * -1, constant +c_l, id m+i' % sides, cc.site(), table=str(sides))
-        # which bound list feeds which test: izip!(bs, lower, upper) order
-        zs = [c for c in cc.calls if 'multizip' in c.name or c.item == 'izip' or re.search(r'Zip<', c.name) and c.item == 'new']
-        s = ctx.S.backslice(cc, [0])
-        order = zip_order(ctx, cc)
-        ctx.check(order == ['bs_non_zeroes', 'constr_lower_cs', 'constr_upper_cs'], R + '.sign/zip-order', 'T-CARRY', cc.name, 'constraint data are zipped as %s' % order, cc.site())
-        ctx.check(idx_of.get('+inf', [])[-1:] == ['2'] and idx_of.get('-inf', [])[-1:] == ['1'], R + '.sign/side-uses-its-own-bound', 'T-CARRY', cc.name,
-                  'the +inf test must read the third zipped value (c_u) and the -inf test the second (c_l); found %s' % idx_of, cc.site())
+    infinity_rules(ctx, b)
+    half_rules(ctx)
+    sign_rules(ctx)
     # objective: default b0 over all variables, overridden by non-defaults; constant
     ob = ctx.free_fn(R + '.b0/anchor', 'qplib::convert::convert_objective')
     if ob is not None:
@@ -428,73 +1066,144 @@ def convert_rules(ctx):
         for f in ('q0_non_zeroes', 'b0_non_defaults', 'default_b0', 'num_vars', 'obj_constant'):
             ctx.check(s.has_field(QF, f), R + '.b0/uses-' + f, 'T-CARRY', ob.name, 'objective does not depend on QplibFile.%s' % f, ob.site())
         wf = [c for c in ob.calls if c.item == 'wrap_function']
-        ok = len(wf) == 1 and (QF, 'obj_constant') in T.access_path(ob, wf[0].args[2])[0] and not any(x[0] in ('un', 'bin') for x in T.expr_walk(T.expr(ob, wf[0].args[2])))
+        # every function the objective can be returned as gets obj_constant itself (an early `return wrap_function(..)` makes two calls)
+        ok = bool(wf) and all(len(c.args) == 3 and (QF, 'obj_constant') in T.access_path(ob, c.args[2])[0] and not any(x[0] in ('un', 'bin') for x in T.expr_walk(T.expr(ob, c.args[2]))) for c in wf)
         ctx.check(ok, R + '.b0/constant', 'T-CARRY', ob.name, 'objective constant is not obj_constant unchanged', ob.site())
         rng = [st for bi, st in ob.stmts() if st['rv']['k'] == 'agg' and st['rv']['adt'].endswith('ops::Range')]
-        okr = any(st['rv']['ops'][0].get('v') == '0_u64' and (QF, 'num_vars') in T.expr_fields(T.expr(ob, st['rv']['ops'][1])) for st in rng)
+        # `0..num_vars as u64` == `(0..num_vars)` with the cast on the item
+        okr = any(re.match(r'^0_(u64|usize)$', st['rv']['ops'][0].get('v') or '') and (QF, 'num_vars') in T.expr_fields(T.expr(ob, st['rv']['ops'][1])) for st in rng)
         ctx.check(okr, R + '.b0/default-over-all-variables', 'T-LOOPMUST', ob.name, 'the default b0 is not expanded over ids 0..num_vars', ob.site())
         loops = [lo for lo in T.for_loops(ob) if ctx.S.slice_operand(ob, lo[0].args[0]).has_field(QF, 'b0_non_defaults')]
         okov = False
         for lo in loops:
             ws = [(bi, st) for bi, st in ob.stmts() if bi in lo[4] and st['dst']['p'] and fields_of_place(st['dst'])[-1:] == [('v1::linear::Term', 'coefficient')]]
-            okov = len(ws) == 1 and T.must_pass(ob, lo[2], {lo[1]}, {ws[0][0]})
+            okov = okov or (bool(ws) and T.must_pass(ob, lo[2], {lo[1]}, {w[0] for w in ws}))
         ctx.check(okov, R + '.b0/non-defaults-override', 'T-LOOPMUST', ob.name, 'non-default b0 entries do not override the default for every listed index', ob.site())
-    wfb = ctx.free_fn(R + '.wrap/anchor', 'qplib::convert::wrap_function')
-    if wfb is not None:
-        ws = [(bi, st) for bi, st in wfb.stmts() if st['dst']['p'] and fields_of_place(st['dst'])[-1:] == [('v1::Linear', 'constant')]]
-        okc = all(T.strip_wrappers(T.expr(wfb, st['rv']['ops'][0])) == ('place', 3, []) for bi, st in ws) and len(ws) == 2
-        cst = [st for bi, st in wfb.stmts() if st['rv']['k'] == 'agg' and st['rv']['adt'].endswith('function::Function::Constant')]
-        okk = len(cst) == 1 and T.strip_wrappers(T.expr(wfb, cst[0]['rv']['ops'][0])) == ('place', 3, [])
-        ctx.check(okc and okk, R + '.wrap/constant-kept', 'T-CARRY', wfb.name, 'the constant is not carried into every form (constant / linear / quadratic)', wfb.site())
-        lw = [(bi, st) for bi, st in wfb.stmts() if st['dst']['p'] and fields_of_place(st['dst'])[-1:] == [('v1::Quadratic', 'linear')]]
-        ctx.check(len(lw) == 1, R + '.wrap/linear-attached', 'T-CARRY', wfb.name, 'the linear part is not attached to the quadratic function', wfb.site())
+    wrap_rules(ctx)
     # variables
     dv = ctx.free_fn(R + '.vars/anchor', 'qplib::convert::convert_dvars')
     if dv is not None:
-        order = zip_order(ctx, dv)
-        ctx.check(order == ['var_types', 'lower_bounds', 'upper_bounds'], R + '.vars/zip-order', 'T-CARRY', dv.name, 'variable data are zipped as %s' % order, dv.site())
-        adt = ctx.F.adt('qplib::parser::VarType'); rows = {}
-        for bi_ in dv.live:
-            t = dv.blocks[bi_]['term']
-            if t['k'] == 'switch' and adt and t['d']['k'] != 'const':
-                for k2, b2, d in dv.defs_of(t['d']['pl']['l']):
-                    if k2 == 'stmt' and d['rv']['k'] == 'discr' and 'VarType' in dv.locals[d['rv']['pl']['l']]:
-                        m = {v: tg for v, tg in t['ts']}
-                        for v in adt['variants']:
-                            tg = m.get(v['discr'], t['else']); others = {m.get(x['discr'], t['else']) for x in adt['variants']} - {tg}
-                            reg = dv.reach([tg], stop=others | set(dv.loops()))
-                            rows[v['name']] = sorted({re.search(r'Kind::(\w+)', o['v']).group(1) for b3, st in dv.stmts() if b3 in reg for o in st['rv'].get('ops', []) if o['k'] == 'const' and 'Kind::' in o['v']})
+        def kinds_in(reg):
+            ks = {re.search(r'Kind::(\w+)', o['v']).group(1) for b3, st in dv.stmts() if b3 in reg for o in st['rv'].get('ops', []) if o['k'] == 'const' and re.search(r'Kind::(\w+)', o['v'])}
+            ks |= {st['rv']['adt'].split('::')[-1] for b3, st in dv.stmts() if b3 in reg and st['rv']['k'] == 'agg' and 'decision_variable::Kind::' in st['rv']['adt']}
+            return sorted(ks)
+        rows = enum_rows(ctx, dv, 'qplib::parser::VarType', kinds_in)
         ctx.check(rows == {'Continuous': ['Continuous'], 'Integer': ['Integer'], 'Binary': ['Binary']}, R + '.vars/kind-mapping', 'T-BRANCHFX', dv.name, 'variable types map to %s' % rows, dv.site())
         aggs = find_aggregates(dv, 'v1::Bound')
-        okb = False
+        okb = False; srcs = {}
+        LISTS = ('var_types', 'lower_bounds', 'upper_bounds')
         for bi, st in aggs:
             d = dict(zip(st['rv']['fields'], st['rv']['ops']))
-            fl = [f for a, f in T.expr_fields(T.expr(dv, d['lower'], depth=10)) if a == 'tuple']; fu = [f for a, f in T.expr_fields(T.expr(dv, d['upper'], depth=10)) if a == 'tuple']
-            okb = fl != fu and bool(fl) and bool(fu)
-        ctx.check(okb, R + '.vars/bound', 'T-CARRY', dv.name, 'Bound{lower, upper} is not built from the two zipped bound lists', dv.site())
+            el, eu = T.expr(dv, d['lower'], depth=10), T.expr(dv, d['upper'], depth=10)
+            okb = el != eu and el[0] != 'const' and eu[0] != 'const'
+            srcs = {'lower': source_list(ctx, dv, d['lower'], LISTS), 'upper': source_list(ctx, dv, d['upper'], LISTS)}
+        ctx.check(okb, R + '.vars/bound', 'T-CARRY', dv.name, 'Bound{lower, upper} is not built from two different list elements', dv.site())
+        # which list feeds which part (LIST_SOURCE_IDIOMS); formerly "zip order is (var_types, lower_bounds, upper_bounds)"
+        if aggs and None not in srcs.values():
+            ctx.check(srcs == {'lower': 'lower_bounds', 'upper': 'upper_bounds'}, R + '.vars/lists', 'T-CARRY', dv.name, 'Bound{lower, upper} is filled from %s' % srcs, dv.site())
+        else:
+            sl = ctx.S.backslice(dv, [0])
+            ctx.check(all(sl.has_field(QF, f) for f in LISTS), R + '.vars/lists/depends', 'T-CARRY', dv.name, 'the variables do not depend on var_types, lower_bounds and upper_bounds', dv.site())
+            ctx.undecided(R + '.vars/lists', 'T-CARRY', dv.site(), 'cannot tie Bound.lower / Bound.upper to one list each: %s' % srcs)
         s = ctx.S.backslice(dv, [0])
         ctx.check(s.has_field(QF, 'var_names'), R + '.vars/names', 'T-CARRY', dv.name, 'variable names are not carried', dv.site())
 
 
-def zip_order(ctx, b):
-    """izip!(a, b, c) expands to a.into_iter().zip(b).zip(c).map(flatten): the QplibFile fields in zip order"""
-    zs = [c for c in b.calls if c.item == 'zip' and 'Iterator' in (c.trait or '')]
-    if not zs: return []
-    outer = [c for c in zs if not any(c in ctx.S.slice_operand(b, z.args[0]).call_objs for z in zs if z is not c)]
-    def fld(operand):
-        fs = [f for a, f in T.access_path(b, operand, transparent=re.compile(r'::(into_iter|iter|deref|as_ref)(::<.*>)?$'))[0] if a.endswith('QplibFile')]
-        return fs[-1] if fs else None
-    order = []
-    def walk(c):
-        inner = [z for z in zs if z is not c and z.dst['l'] == (c.args[0]['pl']['l'] if c.args[0]['k'] in ('copy', 'move') else -1)]
-        if inner: walk(inner[0])
-        else: order.append(fld(c.args[0]))
-        order.append(fld(c.args[1]))
-    walk(outer[0])
-    return order
+# how the value handled in a loop may be tied to the list it was taken from (source_list); one entry per idiom
+LIST_SOURCE_IDIOMS = {
+    'zip':      '`for (a, b) in xs.iter().zip(ys)`: leaf k of the item tuple is the k-th zipped list; nesting as built by the zips',
+    'izip':     '`izip!(xs, ys, zs)` == `xs.into_iter().zip(ys).zip(zs).map(|((a, b), c)| (a, b, c))`: the flattening closure is read, not assumed',
+    'enumerate': '`.enumerate()` puts the index in front: (i, item)',
+    'index':    '`xs[i]`, `xs.get(i)`, `for x in xs` / `xs.iter()`: the list is on the access path of the value itself',
+}
+_ITER_IDENTITY = re.compile(r'::(into_iter|iter|iter_mut|by_ref|copied|cloned|rev|deref|deref_mut|as_ref|as_slice|peekable|fuse)(::<.*>)?$')
+_ELEMENT_OF = re.compile(r'::(index|index_mut|get|get_mut|get_unchecked|first|last|unwrap|expect|deref|deref_mut|as_ref|clone|cloned|copied|borrow|into|from)(::<.*>)?$')
+
+
+def item_tree(ctx, b, operand, depth=16):
+    """shape of the items of the iterator in `operand`, leaves labelled with the QplibFile list they come from:
+    ('leaf', field | '#index' | None) | ('tuple', [subtrees]).  None when the chain has a step that is not understood."""
+    if depth <= 0 or operand['k'] not in ('copy', 'move'): return None
+    fs = [f for a, f in T.access_path(b, operand, transparent=_ITER_IDENTITY)[0] if a.endswith('QplibFile')]
+    pl = operand['pl']
+    ds = [d for d in b.defs_of(pl['l']) if not (d[0] == 'stmt' and d[2]['dst']['p'])]
+    if len(ds) == 1 and ds[0][0] == 'call' and not _projs(pl):
+        c = [x for x in b.calls if x.bb == ds[0][1]][0]
+        tr = c.trait or ''
+        if c.item == 'enumerate' and tr.endswith('Iterator'):
+            sub = item_tree(ctx, b, c.args[0], depth - 1)
+            return ('tuple', [('leaf', '#index'), sub]) if sub is not None else None
+        if c.item == 'zip' and tr.endswith('Iterator'):
+            a0 = item_tree(ctx, b, c.args[0], depth - 1); a1 = item_tree(ctx, b, c.args[1], depth - 1)
+            return ('tuple', [a0, a1]) if a0 is not None and a1 is not None else None
+        if c.item == 'map' and tr.endswith('Iterator') and len(c.args) == 2:
+            sub = item_tree(ctx, b, c.args[0], depth - 1)
+            cl = ctx.S.slice_operand(b, c.args[1]).closures
+            cb = ctx.F.bodies.get(sorted(cl)[0]) if len(cl) == 1 else None
+            if sub is None or cb is None or cb.argc != 2: return None
+            # the closure must be a pure re-tupling of its argument: `|((a, b), c)| (a, b, c)`
+            rets = [st for bi, st in cb.stmts() if st['dst'] == {'l': 0, 'p': []}]
+            if len(rets) != 1 or rets[0]['rv']['k'] != 'agg' or rets[0]['rv']['adt'] != 'tuple' or cb.calls: return None
+            out = []
+            for o in rets[0]['rv']['ops']:
+                e = T.expr(cb, o)
+                if e[0] != 'place' or e[1] != 2: return None
+                out.append(tree_at(sub, [f for a, f in e[2] if a == 'tuple']))
+            return ('tuple', out) if all(x is not None for x in out) else None
+        if _ITER_IDENTITY.search(T.strip_generics_tail(c.name)) and c.args:
+            return item_tree(ctx, b, c.args[0], depth - 1)
+        return None
+    if len(ds) == 1 and ds[0][0] == 'stmt' and ds[0][2]['rv']['k'] in ('use', 'ref') and not fs:
+        rv = ds[0][2]['rv']
+        src = rv['ops'][0] if rv['k'] == 'use' else {'k': 'copy', 'pl': rv['pl']}
+        return item_tree(ctx, b, src, depth - 1)
+    return ('leaf', fs[-1]) if fs else None
+
+
+def tree_at(tree, path):
+    for k in path:
+        if tree is None or tree[0] != 'tuple' or not k.isdigit() or int(k) >= len(tree[1]): return None
+        tree = tree[1][int(k)]
+    return tree
+
+
+def source_list(ctx, b, operand, lists):
+    """which QplibFile list in `lists` the value of `operand` is an element of (LIST_SOURCE_IDIOMS); None = not determined"""
+    e = T.expr(b, operand, depth=14)
+    path = []
+    for _ in range(20):
+        if e[0] == 'proj': path = list(e[2]) + path; e = e[1]; continue
+        if e[0] in ('cast', 'un') : e = e[2]; continue
+        if e[0] == 'call' and e[1] == 'next' and 'Iterator' in e[2]:
+            c = [x for x in b.calls if x.bb == e[4]]
+            if not c: return None
+            tree = item_tree(ctx, b, c[0].args[0])
+            # `next(&mut it)`: the tree of `it`
+            leaf = tree_at(tree, [f for a, f in path if a == 'tuple']) if tree is not None else None
+            if leaf is not None and leaf[0] == 'leaf' and leaf[1] in lists: return leaf[1]
+            return None
+        if e[0] == 'call' and _ELEMENT_OF.search(T.strip_generics_tail(e[2])) and e[3]: e = e[3][0]; continue
+        break
+    if e[0] == 'place':
+        fs = [f for a, f in e[2] if a.endswith('QplibFile') and f in lists]
+        if len(set(fs)) == 1: return fs[0]
+        if 1 <= e[1] <= b.argc: return None
+        # a local bound to the field earlier (`let QplibFile { xs, .. } = qplib`)
+        fs = [f for a, f in T.access_path(b, {'k': 'copy', 'pl': {'l': e[1], 'p': []}})[0] if a.endswith('QplibFile') and f in lists]
+        if len(set(fs)) == 1: return fs[0]
+    return None
+
+
+def enum_rows(ctx, b, ty, pick):
+    """{variant: pick(blocks reachable when every test on the enum `ty` is decided for that variant)} — the arm of a `match`,
+    of an `if x == K::V .. else ..` chain, of a helper `fn` inlined by the normal form (KIND_TEST_IDIOMS)"""
+    adt = ctx.F.adt(ty)
+    if not adt: return {}
+    short = ty.split('::')[-1]
+    return {v['name']: pick(reach_under(ctx, b, short, v)) for v in adt['variants']}
 
 
 def check(ctx):
     codes_rules(ctx); section_rules(ctx); errors_rules(ctx); convert_rules(ctx)
     ctx.floor('C19.codes', 15); ctx.floor('C19.sections', 39); ctx.floor('C19.convert.cover', 19); ctx.floor('C19.infinity', 3)
-    ctx.floor('C19.convert.half', 4); ctx.floor('C19.convert.sign', 3); ctx.floor('C19.convert.b0', 8); ctx.floor('C19.convert.wrap', 2); ctx.floor('C19.convert.vars', 4)
+    ctx.floor('C19.convert.half', 4); ctx.floor('C19.convert.sign', 12); ctx.floor('C19.convert.b0', 8); ctx.floor('C19.convert.wrap', 2); ctx.floor('C19.convert.vars', 4)
